@@ -193,6 +193,9 @@ Definition a_serialized (rs : list raw) (st : astate) : serialized :=
                  (if 0 <? max_def then Some (map e_def es) else None)
                  (rev ms).
 
+Definition info_special (x : bool * N) : bool := let '(b, l) := x in negb b || (l =? 0).
+Definition info_empty (x : bool * N) : bool := let '(b, l) := x in b && (l =? 0).
+
 (* raw layer of a call given the builder length so far (what apply_call pushes) *)
 Definition raw_of_call (c : call) : raw :=
   match c with
@@ -202,8 +205,8 @@ Definition raw_of_call (c : call) : raw :=
   | COffsets offs v =>
       let info := list_info offs v in
       let norm := prefix_sums 0 (map snd info) in
-      let sp := length (filter (fun '(b, l) => negb b || (l =? 0)) info) in
-      let he := existsb (fun '(b, l) => b && (l =? 0)) info in
+      let sp := length (filter info_special info) in
+      let he := existsb info_empty info in
       ROffsets norm v he (length norm - 1) sp
   end.
 
@@ -838,4 +841,1913 @@ Proof.
     unfold a_layers. cbn [fold_left layers_len]. fold (a_layers rs (a_layer r (es, cr, cd, ms))).
     destruct (a_layer r (es, cr, cd, ms)) as [[[es1 cr1] cd1] ms1] eqn:E.
     exact (IH c1 es1 cr1 cd1 ms1 _ Hc1 Hp2).
+Qed.
+
+(* ============================================================================================== *)
+(* 3. Unraveler                                                                                     *)
+
+(* counts over meaning lists *)
+Fixpoint mlev (ms : list meaning) : N := match ms with [] => 0 | m :: t => num_def_levels m + mlev t end.
+Definition m_real_list (m : meaning) : bool :=
+  match m with NullableList | EmptyableList | NullableAndEmptyableList => true | _ => false end.
+Fixpoint mrc (ms : list meaning) : N := match ms with [] => 0 | m :: t => (if m_real_list m then 1 else 0) + mrc t end.
+Fixpoint mlists (ms : list meaning) : N := match ms with [] => 0 | m :: t => (if m_is_list m then 1 else 0) + mlists t end.
+
+Lemma mlev_app a b : mlev (a ++ b) = mlev a + mlev b.
+Proof. induction a as [|m t IH]; cbn [app mlev]; [reflexivity|]. rewrite IH. lia. Qed.
+Lemma mrc_app a b : mrc (a ++ b) = mrc a + mrc b.
+Proof. induction a as [|m t IH]; cbn [app mrc]; [reflexivity|]. rewrite IH. lia. Qed.
+Lemma mlists_app a b : mlists (a ++ b) = mlists a + mlists b.
+Proof. induction a as [|m t IH]; cbn [app mlists]; [reflexivity|]. rewrite IH. lia. Qed.
+Lemma mlev_rev a : mlev (rev a) = mlev a.
+Proof. induction a as [|m t IH]; [reflexivity|]. cbn [rev mlev]. rewrite mlev_app, IH. cbn [mlev]. lia. Qed.
+Lemma mrc_rev a : mrc (rev a) = mrc a.
+Proof. induction a as [|m t IH]; [reflexivity|]. cbn [rev mrc]. rewrite mrc_app, IH. cbn [mrc]. lia. Qed.
+Lemma mlists_rev a : mlists (rev a) = mlists a.
+Proof. induction a as [|m t IH]; [reflexivity|]. cbn [rev mlists]. rewrite mlists_app, IH. cbn [mlists]. lia. Qed.
+Lemma mrc_le_mlists a : mrc a <= mlists a.
+Proof. induction a as [|m t IH]; cbn [mrc mlists]; [lia|]. destruct m; cbn; lia. Qed.
+
+Lemma l2r_aux_app a b rc : levels_to_rep_aux (a ++ b) rc = levels_to_rep_aux a rc ++ levels_to_rep_aux b (rc + mrc a).
+Proof.
+  revert rc. induction a as [|m t IH]; intros rc; cbn [app mrc].
+  - rewrite N.add_0_r. reflexivity.
+  - destruct m; cbn [levels_to_rep_aux m_real_list]; rewrite IH; cbn [app]; rewrite ?N.add_0_l, ?N.add_assoc; reflexivity.
+Qed.
+Lemma l2r_aux_length a rc : length (levels_to_rep_aux a rc) = N.to_nat (mlev a).
+Proof.
+  revert rc. induction a as [|m t IH]; intros rc; [reflexivity|].
+  destruct m; cbn [levels_to_rep_aux mlev num_def_levels length]; rewrite IH; lia.
+Qed.
+Lemma l2r_aux_bound a rc : Forall (fun x => x <= rc + mrc a) (levels_to_rep_aux a rc).
+Proof.
+  revert rc. induction a as [|m t IH]; intros rc; [constructor|].
+  destruct m; cbn [levels_to_rep_aux mrc m_real_list];
+    repeat (constructor; [lia|]);
+    (eapply Forall_impl; [|apply IH]); cbn; intros; lia.
+Qed.
+
+(* the level table of a stack whose innermost part is [a] *)
+Lemma l2r_low a rest j :
+  j <= mlev a -> exists x, nth_error (levels_to_rep (a ++ rest)) (N.to_nat j) = Some x /\ x <= mrc a.
+Proof.
+  intros Hj. unfold levels_to_rep. destruct (N.to_nat j) as [|k] eqn:Ej.
+  - exists 0. split; [reflexivity|lia].
+  - cbn [nth_error]. rewrite l2r_aux_app.
+    assert (Hk : (k < length (levels_to_rep_aux a 0))%nat) by (rewrite l2r_aux_length; lia).
+    rewrite nth_error_app1 by exact Hk.
+    destruct (nth_error (levels_to_rep_aux a 0) k) as [x|] eqn:En; [|apply nth_error_None in En; lia].
+    exists x. split; [reflexivity|]. apply nth_error_In in En.
+    pose proof (l2r_aux_bound a 0) as Hb. rewrite Forall_forall in Hb. specialize (Hb x En). lia.
+Qed.
+
+Lemma l2r_at a m rest k :
+  (k < N.to_nat (num_def_levels m))%nat ->
+  nth_error (levels_to_rep (a ++ m :: rest)) (N.to_nat (mlev a) + 1 + k)
+  = Some (if m_real_list m then mrc a + 1 else mrc a).
+Proof.
+  intros Hk. unfold levels_to_rep. replace (N.to_nat (mlev a) + 1 + k)%nat with (S (N.to_nat (mlev a) + k)) by lia.
+  cbn [nth_error]. rewrite l2r_aux_app, nth_error_app2 by (rewrite l2r_aux_length; lia).
+  rewrite l2r_aux_length. replace (N.to_nat (mlev a) + k - N.to_nat (mlev a))%nat with k by lia.
+  rewrite N.add_0_l.
+  destruct m; cbn [num_def_levels] in Hk; cbn [levels_to_rep_aux m_real_list];
+    try (exfalso; lia); destruct k as [|[|k]]; try (exfalso; cbn in Hk; lia); reflexivity.
+Qed.
+
+(* ---------------------------------------------------------------------------------------------- *)
+(* 3.1 relation between the unraveler's level buffers and the abstract entries                     *)
+
+(* definition level [du] held by the unraveler for entry [e], when [b] levels have been unravelled *)
+Definition reld (b : N) (du : N) (e : ent) : Prop :=
+  match e with
+  | Slot _ d => if d =? 0 then du <= b else du = d
+  | Spec _ d => du = d
+  end.
+
+Lemma reld_slot0 b du r : reld b du (Slot r 0) <-> du <= b.
+Proof. cbn [reld]. change (0 =? 0) with true. cbn iota. reflexivity. Qed.
+
+Lemma reld_mono b1 b2 du e : b1 <= b2 -> reld b1 du e -> reld b2 du e.
+Proof. intros H. destruct e as [r d|r d]; cbn [reld]; [|exact (fun x => x)]. destruct (d =? 0); [lia|exact (fun x => x)]. Qed.
+Lemma Forall2_impl_reld b1 b2 ds es : b1 <= b2 -> Forall2 (reld b1) ds es -> Forall2 (reld b2) ds es.
+Proof. intros H. induction 1; constructor; [eapply reld_mono; eassumption | assumption]. Qed.
+
+Definition rel_def (b : N) (od : option (list N)) (es : list ent) : Prop :=
+  match od with Some ds => Forall2 (reld b) ds es | None => Forall plain es end.
+Definition rel_rep (c : N) (orp : option (list N)) (es : list ent) : Prop :=
+  match orp with Some rs => rs = map (fun e => e_rep e - c) es | None => True end.
+
+(* visibility facts an unravel_validity step needs about an entry *)
+Definition vis_ok (l2r : list N) (b c : N) (e : ent) : Prop :=
+  match e with
+  | Slot _ d => d = 0 \/ (b < d /\ exists x, nth_error l2r (N.to_nat d) = Some x /\ x <= c)
+  | Spec _ d => exists x, nth_error l2r (N.to_nat d) = Some x /\ c < x
+  end.
+
+Definition slot_bits (es : list ent) : list bool := map (fun e => e_def e =? 0) (filter is_slot es).
+
+Lemma uv_filter_ok l2r b c : 
+  (forall j, j <= b -> exists x, nth_error l2r (N.to_nat j) = Some x /\ x <= c) ->
+  forall es ds acc, Forall2 (reld b) ds es -> Forall (vis_ok l2r b c) es ->
+  uv_filter ds l2r c b acc = Ok (rev acc ++ slot_bits es).
+Proof.
+  intros Hlow. induction es as [|e t IH]; intros ds acc Hrel Hvis.
+  - inversion Hrel; subst. cbn. rewrite app_nil_r. reflexivity.
+  - inversion Hrel as [|du ? ds' ? Hr Hrel']; subst. inversion Hvis as [|? ? Hv Hvis']; subst.
+    cbn [uv_filter]. destruct e as [r d|r d]; cbn [reld vis_ok] in *.
+    + destruct (d =? 0) eqn:Ed.
+      * destruct (Hlow du Hr) as (x & En & Hx). rewrite En. apply N.leb_le in Hx. rewrite Hx.
+        rewrite (IH ds' _ Hrel' Hvis'). cbn [rev]. rewrite <- app_assoc. unfold slot_bits. cbn [filter is_slot map e_def app].
+        rewrite Ed. apply N.leb_le in Hr. rewrite Hr. reflexivity.
+      * subst du. apply N.eqb_neq in Ed. destruct Hv as [Hv|(Hb & x & En & Hx)]; [contradiction|].
+        rewrite En. apply N.leb_le in Hx. rewrite Hx.
+        rewrite (IH ds' _ Hrel' Hvis'). cbn [rev]. rewrite <- app_assoc. unfold slot_bits. cbn [filter is_slot map e_def app].
+        apply N.eqb_neq in Ed. rewrite Ed. replace (d <=? b) with false by (symmetry; apply N.leb_gt; exact Hb). reflexivity.
+    + subst du. destruct Hv as (x & En & Hx). rewrite En. replace (x <=? c) with false by (symmetry; apply N.leb_gt; exact Hx).
+      rewrite (IH ds' _ Hrel' Hvis'). reflexivity.
+Qed.
+
+(* after unravelling a NullableItem layer with null level b + 1 *)
+Lemma reld_sv b : forall es vs ds,
+  Forall2 (reld b) ds (sv vs (b + 1) es) ->
+  Forall (fun e => match e with Slot _ d => d = 0 \/ b + 1 < d | Spec _ _ => True end) es ->
+  Forall2 (reld (b + 1)) ds es.
+Proof.
+  induction es as [|e t IH]; intros vs ds Hrel Hok.
+  - cbn in Hrel. inversion Hrel; subst. constructor.
+  - inversion Hok as [|? ? Ho Hok']; subst. destruct e as [r d|r d].
+    + destruct vs as [|v vs']; cbn [sv] in Hrel; inversion Hrel as [|du ? ds' ? Hr Hrel']; subst;
+        (constructor; [|eapply IH; eassumption]); cbn [reld] in *.
+      * destruct (d =? 0); [lia|exact Hr].
+      * destruct (d =? 0) eqn:Ed; cbn [andb] in Hr.
+        -- destruct (negb v); [|rewrite Ed in Hr; lia]. replace (b + 1 =? 0) with false in Hr by (symmetry; apply N.eqb_neq; lia). lia.
+        -- rewrite Ed in Hr. exact Hr.
+    + cbn [sv] in Hrel. inversion Hrel as [|du ? ds' ? Hr Hrel']; subst. constructor; [exact Hr | eapply IH; eassumption].
+Qed.
+
+(* ---------------------------------------------------------------------------------------------- *)
+(* 3.2 unravel_offsets                                                                              *)
+
+(* offsets pushed / validity bits produced for a list layer, from the entries before the layer *)
+Fixpoint lo_offs (es1 : list ent) (lens : list N) (cur : N) : list N * N :=
+  match es1 with
+  | [] => ([], cur)
+  | Spec _ _ :: t => lo_offs t lens cur
+  | Slot r d :: t =>
+      match lens with
+      | len :: lens' => let '(o, f) := lo_offs t lens' (cur + (if d =? 0 then len else 0)) in (cur :: o, f)
+      | [] => lo_offs t [] cur
+      end
+  end.
+
+Lemma uo_def_zeros nl el ml un : forall n ds rr dr curlen wr wd offs vals, length ds = n ->
+  uo_def (repeat 0 n ++ rr) (ds ++ dr) nl el ml un curlen wr wd offs vals
+  = uo_def rr dr nl el ml un (curlen + N.of_nat n) wr wd offs vals.
+Proof.
+  induction n as [|n IH]; intros ds rr dr curlen wr wd offs vals Hl.
+  - destruct ds; [|discriminate]. cbn [repeat app]. rewrite N.add_0_r. reflexivity.
+  - destruct ds as [|d ds]; [discriminate|]. cbn [repeat app uo_def].
+    replace (negb (0 =? 0)) with false by reflexivity.
+    rewrite IH by (cbn in Hl; lia).
+    replace (curlen + N.of_nat (S n)) with (curlen + 1 + N.of_nat n) by lia. reflexivity.
+Qed.
+
+Definition lo_ok (c nl un ml : N) (e : ent) : Prop :=
+  match e with
+  | Slot r d => (r = 0 \/ c < r) /\ (d = 0 \/ d = nl \/ (un < d /\ d <= ml))
+  | Spec r d => c < r /\ ml < d
+  end.
+
+Lemma Forall2_len {A B} (R : A -> B -> Prop) l1 l2 : Forall2 R l1 l2 -> length l1 = length l2.
+Proof. induction 1; cbn; congruence. Qed.
+
+Lemma Forall2_app_inv_r' {A B} (R : A -> B -> Prop) l (l1 l2 : list B) :
+  Forall2 R l (l1 ++ l2) -> exists a b, l = a ++ b /\ Forall2 R a l1 /\ Forall2 R b l2.
+Proof.
+  revert l. induction l1 as [|x t IH]; intros l H.
+  - exists [], l. repeat split; [constructor | exact H].
+  - cbn [app] in H. inversion H as [|y ? l' ? Hxy H']; subst.
+    destruct (IH l' H') as (a & b & E & Ha & Hb). exists (y :: a), b. subst l'. repeat split; [constructor; assumption | exact Hb].
+Qed.
+
+Lemma uo_def_ok b' c' nl el ml un :
+  let c := c' + 1 in
+  b' <= un -> un <= ml -> nl <= un -> el <= un ->
+  (nl = 0 \/ b' < nl) -> (el = 0 \/ b' < el) -> (el = 0 \/ el <> nl) ->
+  forall es1 lens dr curlen wr wd offs vals,
+  slots es1 = length lens ->
+  so_el_ok el es1 lens ->
+  Forall (lo_ok c nl un ml) es1 ->
+  Forall2 (reld b') dr (so lens c el es1) ->
+  exists ds1, Forall2 (reld un) ds1 es1 /\
+    uo_def (map (fun e => e_rep e - c') (so lens c el es1)) dr nl el ml un curlen wr wd offs vals
+    = (snd (lo_offs es1 lens curlen),
+       rev (map (fun e => e_rep e - c) es1) ++ wr,
+       rev ds1 ++ wd,
+       rev (fst (lo_offs es1 lens curlen)) ++ offs,
+       rev (slot_bits es1) ++ vals).
+Proof.
+  intros c Hbun Hunml Hnlun Helun Hnl Hel Hne.
+  induction es1 as [|e t IH]; intros lens dr curlen wr wd offs vals Hsl Helok Hok Hrel.
+  - cbn [so] in Hrel. inversion Hrel; subst. exists []. split; [constructor|]. reflexivity.
+  - inversion Hok as [|? ? Ho Hok']; subst. destruct e as [r d|r d].
+    + (* a slot: a list of this layer *)
+      destruct lens as [|len lens']; [rewrite slots_cons_slot in Hsl; discriminate|].
+      rewrite slots_cons_slot in Hsl. cbn [length] in Hsl. injection Hsl as Hsl.
+      unfold so_el_ok in Helok. cbn [slot_pairs] in Helok. inversion Helok as [|? ? He1 Helok']; subst.
+      destruct Ho as [Hr Hd]. cbn [so] in Hrel |- *.
+      set (ll := if r =? 0 then c else r) in *.
+      assert (Hll : ll - c' <> 0 /\ ll - c' - 1 = r - c).
+      { subst ll c. destruct (r =? 0) eqn:Er; [apply N.eqb_eq in Er; subst r|apply N.eqb_neq in Er]; lia. }
+      destruct Hll as [Hll1 Hll2].
+      cbn [lo_offs]. destruct (lo_offs t lens' (curlen + (if d =? 0 then len else 0))) as [o f] eqn:Elo.
+      cbn [fst snd]. unfold slot_bits. cbn [filter is_slot map e_def]. fold (slot_bits t).
+      destruct (d =? 0) eqn:Ed; cbn [andb] in *.
+      * apply N.eqb_eq in Ed. subst d.
+        destruct (0 <? len) eqn:El.
+        -- (* non-empty valid list *)
+           apply N.ltb_lt in El. cbn [app] in Hrel.
+           inversion Hrel as [|du ? dr1 ? Hr1 Hrel1]; subst.
+           apply Forall2_app_inv_r' in Hrel1 as (dz & dr2 & E & Hz & Hrel2). subst dr1.
+           apply reld_slot0 in Hr1.
+           destruct (IH lens' dr2 (curlen + len) ((ll - c' - 1) :: wr) (du :: wd) (curlen :: offs) (true :: vals) Hsl Helok' Hok' Hrel2)
+             as (ds1 & Hds1 & Huo).
+           exists (du :: ds1). split; [constructor; [apply reld_slot0; lia | exact Hds1]|].
+           cbn [map app e_rep uo_def]. rewrite map_app, map_repeat'. cbn [e_rep].
+           replace (0 - c') with 0 by lia.
+           replace (negb (ll - c' =? 0)) with true by (symmetry; apply negb_true_iff, N.eqb_neq; exact Hll1).
+           assert (Hlz : length dz = N.to_nat (len - 1)).
+           { apply Forall2_len in Hz. rewrite repeat_length in Hz. exact Hz. }
+           assert (Hstep : forall X, uo_def (repeat 0 (N.to_nat (len - 1)) ++ map (fun e => e_rep e - c') (so lens' c el t)) (dz ++ dr2) nl el ml un X
+                                      ((ll - c' - 1) :: wr) (du :: wd) (curlen :: offs) (true :: vals)
+                          = uo_def (map (fun e => e_rep e - c') (so lens' c el t)) dr2 nl el ml un (X + N.of_nat (N.to_nat (len - 1)))
+                                      ((ll - c' - 1) :: wr) (du :: wd) (curlen :: offs) (true :: vals))
+             by (intros X; apply uo_def_zeros; exact Hlz).
+           destruct (du =? 0) eqn:Edu.
+           ++ rewrite Hstep. replace (curlen + 1 + N.of_nat (N.to_nat (len - 1))) with (curlen + len) by lia.
+              rewrite Huo. rewrite Elo. cbn [fst snd map e_rep rev]. rewrite Hll2, <- !app_assoc. reflexivity.
+           ++ apply N.eqb_neq in Edu.
+              replace (ml <? du) with false by (symmetry; apply N.ltb_ge; lia).
+              replace (du =? nl) with false by (symmetry; apply N.eqb_neq; lia).
+              replace (un <? du) with false by (symmetry; apply N.ltb_ge; lia).
+              replace (du =? el) with false by (symmetry; apply N.eqb_neq; lia).
+              cbn [orb]. rewrite Hstep. replace (curlen + 1 + N.of_nat (N.to_nat (len - 1))) with (curlen + len) by lia.
+              rewrite Huo. rewrite Elo. cbn [fst snd map e_rep rev]. rewrite Hll2, <- !app_assoc. reflexivity.
+        -- (* empty list *)
+           apply N.ltb_ge in El. assert (len = 0) by lia. subst len.
+           assert (H1el : 1 <= el) by (apply He1; reflexivity).
+           cbn [app] in Hrel. inversion Hrel as [|du ? dr2 ? Hr1 Hrel2]; subst. cbn [reld] in Hr1. subst du.
+           destruct (IH lens' dr2 curlen ((ll - c' - 1) :: wr) (el :: wd) (curlen :: offs) (true :: vals) Hsl Helok' Hok' Hrel2)
+             as (ds1 & Hds1 & Huo).
+           exists (el :: ds1). split; [constructor; [apply reld_slot0; lia | exact Hds1]|].
+           cbn [map app e_rep uo_def].
+           replace (negb (ll - c' =? 0)) with true by (symmetry; apply negb_true_iff, N.eqb_neq; exact Hll1).
+           replace (el =? 0) with false by (symmetry; apply N.eqb_neq; lia).
+           replace (ml <? el) with false by (symmetry; apply N.ltb_ge; lia).
+           replace (el =? nl) with false by (symmetry; apply N.eqb_neq; lia).
+           replace (un <? el) with false by (symmetry; apply N.ltb_ge; lia).
+           rewrite N.eqb_refl. cbn [orb].
+           rewrite N.add_0_r in Elo. rewrite Huo, Elo. cbn [fst snd map e_rep rev]. rewrite Hll2, <- !app_assoc. reflexivity.
+      * (* null list or list behind a null struct *)
+        apply N.eqb_neq in Ed. destruct Hd as [Hd|Hd]; [contradiction|].
+        cbn [app] in Hrel. inversion Hrel as [|du ? dr2 ? Hr1 Hrel2]; subst. cbn [reld] in Hr1. subst du.
+        destruct (IH lens' dr2 curlen ((ll - c' - 1) :: wr) (d :: wd) (curlen :: offs) (false :: vals) Hsl Helok' Hok' Hrel2)
+          as (ds1 & Hds1 & Huo).
+        exists (d :: ds1). split.
+        { constructor; [|exact Hds1]. cbn [reld]. replace (d =? 0) with false by (symmetry; apply N.eqb_neq; exact Ed). reflexivity. }
+        cbn [map app e_rep uo_def].
+        replace (negb (ll - c' =? 0)) with true by (symmetry; apply negb_true_iff, N.eqb_neq; exact Hll1).
+        replace (d =? 0) with false by (symmetry; apply N.eqb_neq; exact Ed).
+        replace (ml <? d) with false by (symmetry; apply N.ltb_ge; lia).
+        replace ((d =? nl) || (un <? d)) with true.
+        2:{ symmetry. apply orb_true_iff. destruct Hd as [Hd|[Hd _]]; [left; apply N.eqb_eq; exact Hd | right; apply N.ltb_lt; exact Hd]. }
+        rewrite N.add_0_r in Elo. rewrite Huo, Elo. cbn [fst snd map e_rep rev]. rewrite Hll2, <- !app_assoc.
+        replace (d =? 0) with false by (symmetry; apply N.eqb_neq; exact Ed). reflexivity.
+    + (* a special entry of an outer list: kept, invisible *)
+      destruct Ho as [Hr Hd]. rewrite slots_cons_spec in Hsl.
+      cbn [so] in Hrel |- *. inversion Hrel as [|du ? dr2 ? Hr1 Hrel2]; subst. cbn [reld] in Hr1. subst du.
+      destruct (IH lens dr2 curlen ((r - c' - 1) :: wr) (d :: wd) offs vals Hsl Helok Hok' Hrel2) as (ds1 & Hds1 & Huo).
+      exists (d :: ds1). split; [constructor; [reflexivity | exact Hds1]|].
+      cbn [map e_rep uo_def].
+      replace (negb (r - c' =? 0)) with true by (symmetry; apply negb_true_iff, N.eqb_neq; subst c; lia).
+      replace (d =? 0) with false by (symmetry; apply N.eqb_neq; lia).
+      replace (ml <? d) with true by (symmetry; apply N.ltb_lt; exact Hd).
+      rewrite Huo. cbn [lo_offs fst snd map e_rep rev]. unfold slot_bits. cbn [filter is_slot].
+      replace (r - c' - 1) with (r - c) by (subst c; lia). rewrite <- !app_assoc. reflexivity.
+Qed.
+
+Lemma uo_nodef_zeros : forall n rr curlen wr offs,
+  uo_nodef (repeat 0 n ++ rr) curlen wr offs = uo_nodef rr (curlen + N.of_nat n) wr offs.
+Proof.
+  induction n as [|n IH]; intros rr curlen wr offs.
+  - cbn [repeat app]. rewrite N.add_0_r. reflexivity.
+  - cbn [repeat app uo_nodef]. replace (negb (0 =? 0)) with false by reflexivity.
+    rewrite IH. replace (curlen + N.of_nat (S n)) with (curlen + 1 + N.of_nat n) by lia. reflexivity.
+Qed.
+
+Lemma uo_nodef_ok c' el :
+  let c := c' + 1 in
+  forall es1 lens curlen wr offs,
+  length es1 = length lens -> Forall plain es1 -> Forall (fun l => 0 < l) lens ->
+  Forall (fun e => e_rep e = 0 \/ c < e_rep e) es1 ->
+  uo_nodef (map (fun e => e_rep e - c') (so lens c el es1)) curlen wr offs
+  = (snd (lo_offs es1 lens curlen), rev (map (fun e => e_rep e - c) es1) ++ wr, rev (fst (lo_offs es1 lens curlen)) ++ offs).
+Proof.
+  intros c. induction es1 as [|e t IH]; intros lens curlen wr offs Hlen Hp Hpos Hr.
+  - reflexivity.
+  - destruct lens as [|len lens']; [discriminate|].
+    inversion Hp as [|? ? He Hp']; subst. inversion Hpos as [|? ? Hl Hpos']; subst. inversion Hr as [|? ? Hr1 Hr']; subst.
+    rewrite He in *. cbn [e_rep] in *. set (r := e_rep e) in *.
+    cbn [so lo_offs]. change (0 =? 0) with true. cbn [andb].
+    replace (0 <? len) with true by (symmetry; apply N.ltb_lt; exact Hl).
+    set (ll := if r =? 0 then c else r).
+    assert (Hll : ll - c' <> 0 /\ ll - c' - 1 = r - c).
+    { subst ll c. destruct (r =? 0) eqn:Er; [apply N.eqb_eq in Er; rewrite Er|apply N.eqb_neq in Er]; lia. }
+    destruct Hll as [Hll1 Hll2].
+    destruct (lo_offs t lens' (curlen + len)) as [o f] eqn:Elo. cbn [fst snd].
+    cbn [app map e_rep uo_nodef]. rewrite map_app, map_repeat'. cbn [e_rep]. replace (0 - c') with 0 by lia.
+    replace (negb (ll - c' =? 0)) with true by (symmetry; apply negb_true_iff, N.eqb_neq; exact Hll1).
+    rewrite uo_nodef_zeros. replace (curlen + 1 + N.of_nat (N.to_nat (len - 1))) with (curlen + len) by lia.
+    rewrite IH; [|cbn in Hlen; lia|exact Hp'|exact Hpos'|exact Hr'].
+    rewrite Elo. cbn [fst snd rev]. rewrite Hll2, <- !app_assoc. reflexivity.
+Qed.
+
+Lemma lo_offs_length es1 lens cur : slots es1 = length lens -> length (fst (lo_offs es1 lens cur)) = slots es1.
+Proof.
+  revert lens cur. induction es1 as [|[r d|r d] t IH]; intros lens cur H; [reflexivity| |].
+  - destruct lens as [|len lens']; [rewrite slots_cons_slot in H; discriminate|].
+    rewrite slots_cons_slot in *. cbn [length] in H. cbn [lo_offs].
+    destruct (lo_offs t lens' (cur + (if d =? 0 then len else 0))) as [o f] eqn:E. cbn [fst length].
+    specialize (IH lens' (cur + (if d =? 0 then len else 0))). rewrite E in IH. cbn [fst] in IH. rewrite IH by lia. reflexivity.
+  - rewrite slots_cons_spec in *. cbn [lo_offs]. apply IH. exact H.
+Qed.
+
+(* ---------------------------------------------------------------------------------------------- *)
+(* 3.3 the entry invariant of the round trip                                                       *)
+
+Definition reach (mo : list meaning) : N := bump_max_level mo 0.
+Lemma bump_add mo a : bump_max_level mo a = a + reach mo.
+Proof.
+  unfold reach. revert a. induction mo as [|m t IH]; intros a; cbn [bump_max_level]; [lia|].
+  destruct m; try lia; rewrite IH; [|rewrite (IH (0 + 1))]; lia.
+Qed.
+
+(* [b c rc]: definition levels / list layers / list layers that own a level, of the layers still to be
+   serialized (= inside); [mo]: meanings of the layers already serialized, nearest first *)
+Definition eok (l2r : list N) (b c rc : N) (mo : list meaning) (e : ent) : Prop :=
+  match e with
+  | Slot r d => (r = 0 \/ c < r) /\
+                (d = 0 \/ (b < d /\ d <= b + reach mo /\ nth_error l2r (N.to_nat d) = Some rc))
+  | Spec r d => c < r /\ b + reach mo < d /\ exists x, nth_error l2r (N.to_nat d) = Some x /\ rc < x
+  end.
+
+(* a NullableItem layer with null level b (b = b' + 1) *)
+Lemma eok_sv l2r b' c rc mo vs : 
+  nth_error l2r (N.to_nat (b' + 1)) = Some rc ->
+  forall es, Forall (eok l2r (b' + 1) c rc mo) es ->
+  Forall (eok l2r b' c rc (NullableItem :: mo)) (sv vs (b' + 1) es).
+Proof.
+  intros Hn es H. revert vs. induction H as [|e t He _ IH]; intros vs; [constructor|].
+  assert (Hreach : reach (NullableItem :: mo) = 1 + reach mo).
+  { unfold reach. cbn [bump_max_level]. rewrite bump_add. unfold reach. lia. }
+  destruct e as [r d|r d].
+  - destruct He as [Hr Hd].
+    assert (Hold : eok l2r b' c rc (NullableItem :: mo) (Slot r d)).
+    { split; [exact Hr|]. destruct Hd as [Hd|(H1 & H2 & H3)]; [left; exact Hd|right]. rewrite Hreach. repeat split; [lia|lia|exact H3]. }
+    destruct vs as [|v vs']; cbn [sv]; (constructor; [|apply IH]); [exact Hold|].
+    destruct ((d =? 0) && negb v); [|exact Hold].
+    split; [exact Hr|]. right. rewrite Hreach. repeat split; [lia|lia|exact Hn].
+  - cbn [sv]. constructor; [|apply IH]. destruct He as (Hr & Hd & x & Hx & Hlt).
+    split; [exact Hr|]. split; [rewrite Hreach; lia|]. exists x. split; assumption.
+Qed.
+
+Lemma eok_allvalid_item l2r b c rc mo e : eok l2r b c rc mo e -> eok l2r b c rc (AllValidItem :: mo) e.
+Proof.
+  assert (Hreach : reach (AllValidItem :: mo) = reach mo) by (unfold reach; cbn [bump_max_level]; reflexivity).
+  destruct e; cbn [eok]; rewrite Hreach; exact (fun H => H).
+Qed.
+
+Definition eok1 (l2r : list N) (b c rc : N) (mo : list meaning) (nl : N) (e : ent) : Prop :=
+  match e with
+  | Slot r d => (r = 0 \/ c < r) /\
+                (d = 0 \/ (d = nl /\ nl <> 0) \/ (b < d /\ d <= b + reach mo /\ nth_error l2r (N.to_nat d) = Some rc))
+  | Spec r d => c < r /\ b + reach mo < d /\ exists x, nth_error l2r (N.to_nat d) = Some x /\ rc < x
+  end.
+
+Lemma eok1_of_eok l2r b c rc mo nl e : eok l2r b c rc mo e -> eok1 l2r b c rc mo nl e.
+Proof. destruct e; cbn [eok eok1]; [|exact (fun H => H)]. intros [Hr [Hd|Hd]]; (split; [exact Hr|]); auto. Qed.
+
+Lemma eok1_sv l2r b c rc mo nl vs : nl <> 0 ->
+  forall es, Forall (eok l2r b c rc mo) es -> Forall (eok1 l2r b c rc mo nl) (sv vs nl es).
+Proof.
+  intros Hnl es H. revert vs. induction H as [|e t He _ IH]; intros vs; [constructor|].
+  destruct e as [r d|r d].
+  - pose proof (eok1_of_eok _ _ _ _ _ nl _ He) as Hold.
+    destruct vs as [|v vs']; cbn [sv]; (constructor; [|apply IH]); [exact Hold|].
+    destruct ((d =? 0) && negb v); [|exact Hold]. destruct He as [Hr _]. split; [exact Hr|]. right. left. split; [reflexivity|exact Hnl].
+  - cbn [sv]. constructor; [exact He | apply IH].
+Qed.
+
+(* a list layer: position before (b, c' + 1, rc), after (b', c', rc') *)
+Lemma eok_so l2r b b' c' rc rc' m mo nl el :
+  m_is_list m = true -> b' <= b -> rc' <= rc ->
+  (nl = 0 \/ (b' < nl /\ nth_error l2r (N.to_nat nl) = Some (rc' + 1))) ->
+  (el = 0 \/ (b' < el /\ nth_error l2r (N.to_nat el) = Some (rc' + 1))) ->
+  forall es1 lens, Forall (eok1 l2r b (c' + 1) rc mo nl) es1 ->
+  slots es1 = length lens ->
+  (* slots behind a null ancestor only occur when the list layer owns a level *)
+  (rc' < rc \/ Forall (fun e => match e with Slot _ d => d = 0 | _ => True end) es1) ->
+  so_el_ok el es1 lens ->
+  Forall (eok l2r b' c' rc' (m :: mo)) (so lens (c' + 1) el es1).
+Proof.
+  intros Hm Hb Hrc Hnl Hel es1 lens H. revert lens.
+  assert (Hreach : reach (m :: mo) = 0) by (unfold reach; destruct m; cbn in Hm; try discriminate; reflexivity).
+  induction H as [|e t He _ IH]; intros lens Hsl Hmask Helok; [constructor|].
+  assert (Hmask' : rc' < rc \/ Forall (fun e => match e with Slot _ d => d = 0 | _ => True end) t).
+  { destruct Hmask as [Hm1|Hm1]; [left; exact Hm1|right]. inversion Hm1; assumption. }
+  destruct e as [r d|r d].
+  - destruct lens as [|len lens']; [rewrite slots_cons_slot in Hsl; discriminate|].
+    rewrite slots_cons_slot in Hsl. cbn [length] in Hsl. injection Hsl as Hsl. cbn [so].
+    unfold so_el_ok in Helok. cbn [slot_pairs] in Helok. inversion Helok as [|? ? He1 Helok']; subst.
+    apply Forall_app. split; [|apply IH; [exact Hsl|exact Hmask'|exact Helok']].
+    destruct He as [Hr Hd].
+    assert (Hll : c' < (if r =? 0 then c' + 1 else r)).
+    { destruct (r =? 0) eqn:Er; [lia|]. apply N.eqb_neq in Er. destruct Hr; [contradiction|lia]. }
+    destruct (d =? 0) eqn:Ed; cbn [andb].
+    + destruct (0 <? len) eqn:El.
+      * constructor; [split; [right; exact Hll|left; reflexivity]|].
+        apply Forall_forall. intros x Hx. apply repeat_spec in Hx. subst x. split; left; reflexivity.
+      * constructor; [|constructor]. apply N.eqb_eq in Ed. apply N.ltb_ge in El.
+        assert (H1el : 1 <= el) by (apply He1; [exact Ed|lia]).
+        destruct Hel as [Hel|[Hel1 Hel2]]; [lia|].
+        split; [exact Hll|]. split; [rewrite Hreach; lia|]. exists (rc' + 1). split; [exact Hel2|lia].
+    + constructor; [|constructor]. apply N.eqb_neq in Ed.
+      split; [exact Hll|]. rewrite Hreach.
+      destruct Hd as [Hd|[[Hd Hn0]|(H1 & H2 & H3)]]; [contradiction| |].
+      * subst d. destruct Hnl as [Hnl|[Hnl1 Hnl2]]; [contradiction|]. split; [lia|]. exists (rc' + 1). split; [exact Hnl2|lia].
+      * split; [lia|]. exists rc. split; [exact H3|].
+        destruct Hmask as [Hm1|Hm1]; [exact Hm1|]. inversion Hm1; subst. contradiction.
+  - rewrite slots_cons_spec in Hsl. cbn [so]. constructor; [|apply IH; assumption].
+    destruct He as (Hr & Hd & x & Hx & Hlt). split; [lia|]. split; [rewrite Hreach; lia|]. exists x. split; [exact Hx|lia].
+Qed.
+
+(* ---------------------------------------------------------------------------------------------- *)
+(* 3.4 one unraveler, one layer                                                                    *)
+
+Record relu (hr hd : bool) (M : list meaning) (items : nat) (b c : N) (k : nat) (u : unr) (es : list ent) : Prop := {
+  ru_rep : rel_rep c (u_rep u) es;
+  ru_def : rel_def b (u_def u) es;
+  ru_hr : is_some (u_rep u) = hr;
+  ru_hd : is_some (u_def u) = hd;
+  ru_l2r : u_l2r u = levels_to_rep M;
+  ru_m : u_meaning u = M;
+  ru_cdc : u_cdc u = b;
+  ru_crc : u_crc u = c;
+  ru_layer : u_layer u = k;
+  ru_items : u_items u = items }.
+
+Lemma sv_rep_sub vs nl c es : map (fun e => e_rep e - c) (sv vs nl es) = map (fun e => e_rep e - c) es.
+Proof.
+  rewrite <- (map_map e_rep (fun r => r - c)), sv_rep, map_map. reflexivity.
+Qed.
+
+Lemma step_validity_some hr M items b' c k u vs es :
+  relu hr true M items b' c k u (sv vs (b' + 1) es) ->
+  nth_error M k = Some NullableItem ->
+  (forall j, j <= b' -> exists x, nth_error (levels_to_rep M) (N.to_nat j) = Some x /\ x <= c) ->
+  Forall (vis_ok (levels_to_rep M) b' c) (sv vs (b' + 1) es) ->
+  Forall (fun e => match e with Slot _ d => d = 0 \/ b' + 1 < d | Spec _ _ => True end) es ->
+  exists u', comp_unravel_validity [u] = Ok ([u'], Some (slot_bits (sv vs (b' + 1) es))) /\
+             relu hr true M items (b' + 1) c (S k) u' es.
+Proof.
+  intros [Hrep Hdef Hhr Hhd Hl2r Hm Hcdc Hcrc Hlay Hit] Hnth Hlow Hvis Hok.
+  unfold comp_unravel_validity, unr_is_all_valid. rewrite Hm, Hlay, Hnth. cbn [m_is_all_valid bind].
+  cbn [comp_uv]. unfold unravel_validity. rewrite Hm, Hlay, Hnth.
+  destruct (u_def u) as [ds|] eqn:Ed; [|discriminate]. cbn [rel_def] in Hdef.
+  rewrite Hl2r, Hcrc, Hcdc. rewrite (uv_filter_ok _ _ _ Hlow _ _ [] Hdef Hvis). cbn [bind rev app].
+  eexists. split; [reflexivity|].
+  constructor; cbn [set_unr u_rep u_def u_l2r u_meaning u_cdc u_crc u_layer u_items]; try assumption; try reflexivity.
+  - unfold rel_rep in *. destruct (u_rep u); [|exact I]. rewrite Hrep. apply sv_rep_sub.
+  - cbn [rel_def]. eapply reld_sv; eassumption.
+Qed.
+
+Lemma step_validity_none hr hd M items b c k u es :
+  relu hr hd M items b c k u es ->
+  nth_error M k = Some AllValidItem ->
+  exists u', comp_unravel_validity [u] = Ok ([u'], None) /\ relu hr hd M items b c (S k) u' es.
+Proof.
+  intros [Hrep Hdef Hhr Hhd Hl2r Hm Hcdc Hcrc Hlay Hit] Hnth.
+  unfold comp_unravel_validity, unr_is_all_valid. rewrite Hm, Hlay, Hnth. cbn [m_is_all_valid bind map_out].
+  unfold skip_validity. rewrite Hm, Hlay, Hnth. cbn [bind].
+  eexists. split; [reflexivity|].
+  constructor; cbn [set_unr u_rep u_def u_l2r u_meaning u_cdc u_crc u_layer u_items]; try assumption; try reflexivity.
+Qed.
+
+(* levels of a list layer as the unraveler computes them from valid_level = b' *)
+Definition ulist_levels (m : meaning) (b' : N) : N * N * N :=   (* null_level, empty_level, new cdc *)
+  match m with
+  | NullableList => (b' + 1, 0, b' + 1)
+  | EmptyableList => (0, b' + 1, b' + 1)
+  | NullableAndEmptyableList => (b' + 1, b' + 2, b' + 2)
+  | _ => (0, 0, b')
+  end.
+
+Lemma step_offsets_def M items b' c' k u m mo es1 lens :
+  let '(nl, el, b) := ulist_levels m b' in
+  let un := N.max nl el in
+  let ml := un + reach mo in
+  m_is_list m = true ->
+  relu true true M items b' c' k u (so lens (c' + 1) el es1) ->
+  nth_error M k = Some m -> skipn (S k) M = mo ->
+  b' <= un ->
+  slots es1 = length lens -> so_el_ok el es1 lens ->
+  Forall (lo_ok (c' + 1) nl un ml) es1 ->
+  exists u', comp_unravel_offsets [u]
+             = Ok ([u'], fst (lo_offs es1 lens 0) ++ [snd (lo_offs es1 lens 0)],
+                   if m_is_all_valid m then None else Some (slot_bits es1)) /\
+             relu true true M items b (c' + 1) (S k) u' es1.
+Proof.
+  destruct (ulist_levels m b') as [[nl el] b] eqn:Elv. intros un ml Hm [Hrep Hdef Hhr Hhd Hl2r HM Hcdc Hcrc Hlay Hit] Hnth Hsk Hbun Hsl Helok Hok.
+  assert (Hfacts : un <= ml /\ nl <= un /\ el <= un /\ (nl = 0 \/ b' < nl) /\ (el = 0 \/ b' < el) /\ (el = 0 \/ el <> nl) /\ (m_is_all_valid m = false -> b = un) /\ un <= b /\ b' <= b).
+  { subst un ml. unfold ulist_levels in Elv. destruct m; cbn in Hm; try discriminate; inversion Elv; subst; cbn [m_is_all_valid]; repeat split; try lia; discriminate. }
+  destruct Hfacts as (F1 & F2 & F3 & F4 & F5 & F6 & F7 & F8 & F9).
+  destruct (u_rep u) as [rs|] eqn:Er; [|discriminate].
+  destruct (u_def u) as [ds|] eqn:Ed; [|discriminate].
+  cbn [rel_rep rel_def] in Hrep, Hdef.
+  destruct (uo_def_ok b' c' nl el ml un Hbun F1 F2 F3 F4 F5 F6 es1 lens ds 0 [] [] [] [] Hsl Helok Hok Hdef) as (ds1 & Hds1 & Huo).
+  unfold comp_unravel_offsets. cbn [all_valid_all map_out]. unfold unr_is_all_valid, unr_max_lists. rewrite HM, Hlay, Hnth.
+  cbn [bind]. 
+  assert (Hml : (match m with NullableItem => Panic | _ => Ok (match u_rep u with Some r => length r | None => O end) end)
+                = Ok (match u_rep u with Some r => length r | None => O end)) by (destruct m; cbn in Hm; try discriminate; reflexivity).
+  rewrite Hml. cbn [bind comp_uo]. unfold unravel_offsets. rewrite Er, HM, Hlay, Hnth, Hcdc.
+  assert (Hlv : (match m with
+                 | NullableList => Ok (b' + 1, 0, b' + 1)
+                 | EmptyableList => Ok (0, b' + 1, b' + 1)
+                 | NullableAndEmptyableList => Ok (b' + 1, b' + 2, b' + 2)
+                 | AllValidList => Ok (0, 0, b')
+                 | _ => Panic
+                 end) = Ok (nl, el, b)).
+  { unfold ulist_levels in Elv. destruct m; cbn in Hm; try discriminate; inversion Elv; reflexivity. }
+  rewrite Hlv. cbn [bind]. rewrite Hsk, bump_add. fold un. fold ml.
+  rewrite Ed. rewrite Hrep, map_length, (Forall2_len _ _ _ Hdef), Nat.eqb_refl. cbn [assert_ bind last removelast].
+  rewrite Huo. cbn [app]. rewrite !app_nil_r, !rev_involutive.
+  eexists. split.
+  { f_equal. f_equal. destruct (m_is_all_valid m && true) eqn:Eav; rewrite andb_true_r in Eav; rewrite Eav; reflexivity. }
+  constructor; cbn [set_unr u_rep u_def u_l2r u_meaning u_cdc u_crc u_layer u_items]; try assumption; try reflexivity.
+  - cbn [rel_def]. eapply Forall2_impl_reld; [|exact Hds1]. exact F8.
+  - rewrite Hcrc. reflexivity.
+Qed.
+
+Lemma step_offsets_nodef M items b' c' k u el es1 lens :
+  relu true false M items b' c' k u (so lens (c' + 1) el es1) ->
+  nth_error M k = Some AllValidList ->
+  length es1 = length lens -> Forall plain es1 -> Forall (fun l => 0 < l) lens ->
+  Forall (fun e => e_rep e = 0 \/ c' + 1 < e_rep e) es1 ->
+  exists u', comp_unravel_offsets [u]
+             = Ok ([u'], fst (lo_offs es1 lens 0) ++ [snd (lo_offs es1 lens 0)], None) /\
+             relu true false M items b' (c' + 1) (S k) u' es1.
+Proof.
+  intros [Hrep Hdef Hhr Hhd Hl2r HM Hcdc Hcrc Hlay Hit] Hnth Hlen Hplain Hpos Hr.
+  destruct (u_rep u) as [rs|] eqn:Er; [|discriminate].
+  destruct (u_def u) as [ds|] eqn:Ed; [discriminate|].
+  cbn [rel_rep rel_def] in Hrep, Hdef.
+  unfold comp_unravel_offsets. cbn [all_valid_all map_out]. unfold unr_is_all_valid, unr_max_lists. rewrite HM, Hlay, Hnth.
+  cbn [bind m_is_all_valid andb comp_uo]. unfold unravel_offsets. rewrite Er, HM, Hlay, Hnth, Ed. cbn [bind last removelast].
+  rewrite Hrep, (uo_nodef_ok c' el es1 lens 0 [] [] Hlen Hplain Hpos Hr). cbn [app option_map]. rewrite !app_nil_r, !rev_involutive.
+  destruct (plain_specs es1 Hplain) as [_ Hsl].
+  assert (Hlo : length (fst (lo_offs es1 lens 0)) = length es1) by (rewrite lo_offs_length; [exact Hsl | congruence]).
+  set (f := fun e => e_rep e - (c' + 1)).
+  assert (Hfirst : forall X, firstn (length (fst (lo_offs es1 lens 0) ++ [snd (lo_offs es1 lens 0)]) - 1) (map f es1 ++ X) = map f es1).
+  { intros X. rewrite app_length, Hlo. cbn [length].
+    replace (length es1 + 1 - 1)%nat with (length (map f es1) + 0)%nat by (rewrite map_length; lia).
+    rewrite firstn_app_2. cbn [firstn]. apply app_nil_r. }
+  rewrite Hfirst.
+  eexists. split; [reflexivity|].
+  constructor; cbn [set_unr u_rep u_def u_l2r u_meaning u_cdc u_crc u_layer u_items rel_rep rel_def is_some]; try assumption; try reflexivity.
+  rewrite Hcrc. reflexivity.
+Qed.
+
+(* ---------------------------------------------------------------------------------------------- *)
+(* 3.5 the whole stack                                                                             *)
+
+Fixpoint unravel_st (us : list unr) (ks : list ukind) : outcome (list unr * list layer_out) :=
+  match ks with
+  | [] => Ok (us, [])
+  | UValidity :: ks' =>
+      do '(us', v) <- comp_unravel_validity us; do '(us'', rest) <- unravel_st us' ks'; Ok (us'', (v, None) :: rest)
+  | UFsl dim :: ks' =>
+      do '(us', v) <- comp_unravel_fsl_validity us dim; do '(us'', rest) <- unravel_st us' ks'; Ok (us'', (v, None) :: rest)
+  | UOffsets :: ks' =>
+      do '(us', o, v) <- comp_unravel_offsets us; do '(us'', rest) <- unravel_st us' ks'; Ok (us'', (v, Some o) :: rest)
+  end.
+
+Lemma unravel_all_st us ks : unravel_all us ks = do '(_, o) <- unravel_st us ks; Ok o.
+Proof.
+  revert us. induction ks as [|k ks IH]; intros us; [reflexivity|].
+  destruct k; cbn [unravel_all unravel_st].
+  - destruct (comp_unravel_validity us) as [[us' v]| |]; cbn [bind]; try reflexivity.
+    rewrite IH. destruct (unravel_st us' ks) as [[us'' rest]| |]; reflexivity.
+  - destruct (comp_unravel_offsets us) as [[[us' o] v]| |]; cbn [bind]; try reflexivity.
+    rewrite IH. destruct (unravel_st us' ks) as [[us'' rest]| |]; reflexivity.
+  - destruct (comp_unravel_fsl_validity us dim) as [[us' v]| |]; cbn [bind]; try reflexivity.
+    rewrite IH. destruct (unravel_st us' ks) as [[us'' rest]| |]; reflexivity.
+Qed.
+
+Lemma unravel_st_app us ks1 ks2 us1 o1 :
+  unravel_st us ks1 = Ok (us1, o1) ->
+  unravel_st us (ks1 ++ ks2) = do '(us2, o2) <- unravel_st us1 ks2; Ok (us2, o1 ++ o2).
+Proof.
+  revert us us1 o1. induction ks1 as [|k ks IH]; intros us us1 o1 H.
+  - cbn in H. inversion H; subst. cbn [app]. destruct (unravel_st us1 ks2) as [[a b]| |]; reflexivity.
+  - destruct k; cbn [app unravel_st] in *.
+    + destruct (comp_unravel_validity us) as [[us' v]| |]; cbn [bind] in *; try discriminate.
+      destruct (unravel_st us' ks) as [[us'' rest]| |] eqn:E; cbn [bind] in *; try discriminate. inversion H; subst.
+      rewrite (IH _ _ _ E). destruct (unravel_st us1 ks2) as [[a b]| |]; reflexivity.
+    + destruct (comp_unravel_offsets us) as [[[us' o] v]| |]; cbn [bind] in *; try discriminate.
+      destruct (unravel_st us' ks) as [[us'' rest]| |] eqn:E; cbn [bind] in *; try discriminate. inversion H; subst.
+      rewrite (IH _ _ _ E). destruct (unravel_st us1 ks2) as [[a b]| |]; reflexivity.
+    + destruct (comp_unravel_fsl_validity us dim) as [[us' v]| |]; cbn [bind] in *; try discriminate.
+      destruct (unravel_st us' ks) as [[us'' rest]| |] eqn:E; cbn [bind] in *; try discriminate. inversion H; subst.
+      rewrite (IH _ _ _ E). destruct (unravel_st us1 ks2) as [[a b]| |]; reflexivity.
+Qed.
+
+Definition lm (r : raw) : meaning :=
+  match r with
+  | RValidity (Some _) _ | RFsl (Some _) _ _ => NullableItem
+  | RValidity None _ | RFsl None _ _ => AllValidItem
+  | ROffsets _ v he _ _ =>
+      match is_some v, he with
+      | true, true => NullableAndEmptyableList | true, false => NullableList
+      | false, true => EmptyableList | false, false => AllValidList
+      end
+  end.
+Definition lkind (r : raw) : ukind :=
+  match r with RValidity _ _ => UValidity | ROffsets _ _ _ _ _ => UOffsets | RFsl _ dim _ => UFsl dim end.
+
+(* what the reader must get back for one layer, from the entries before the layer *)
+Definition a_out (r : raw) (es : list ent) (cd : N) : layer_out :=
+  match r with
+  | RValidity (Some vs) _ => (Some (slot_bits (sv vs cd es)), None)
+  | RValidity None _ => (None, None)
+  | RFsl _ _ _ => (None, None)
+  | ROffsets o v he _ _ =>
+      let '(m, nl, el) := list_levels v he cd in
+      let es1 := match v with Some vs => sv vs nl es | None => es end in
+      let lo := lo_offs es1 (windows_len o) 0 in
+      (match v with Some _ => Some (slot_bits es1) | None => None end, Some (fst lo ++ [snd lo]))
+  end.
+
+Fixpoint a_outs (rs : list raw) (st : astate) : list layer_out :=
+  match rs with
+  | [] => []
+  | r :: rs' => let '(es, _, cd, _) := st in a_out r es cd :: a_outs rs' (a_layer r st)
+  end.
+
+Lemma a_layer_shape r es cr cd ms :
+  exists es', a_layer r (es, cr, cd, ms) = (es', cr - (if m_is_list (lm r) then 1 else 0), cd - num_def_levels (lm r), ms ++ [lm r]).
+Proof.
+  destruct r as [o v he n sp | [v|] n | [v|] dim n]; cbn [a_layer a_validity lm]; try (eexists; rewrite ?N.sub_0_r; reflexivity).
+  destruct (is_some v), he; cbn [m_is_list num_def_levels]; eexists; reflexivity.
+Qed.
+
+Lemma specs_zero_no_spec l r d : specs l = O -> In (Spec r d) l -> False.
+Proof.
+  induction l as [|[r' d'|r' d'] t IH]; intros H Hin; [contradiction| |].
+  - rewrite specs_cons_slot in H. destruct Hin as [E|Hin]; [discriminate|exact (IH H Hin)].
+  - rewrite specs_cons_spec in H. discriminate.
+Qed.
+
+(* preconditions of the reader side, per layer *)
+Definition ul_pre (hr hd : bool) (r : raw) (inner : list meaning) (es : list ent) (cd : N) : Prop :=
+  match r with
+  | RValidity None _ => True
+  | RValidity (Some vs) _ => hd = true /\ (specs es = O \/ mrc inner = mlists inner)
+  | RFsl _ _ _ => False
+  | ROffsets o v he _ _ =>
+      let '(m, nl, el) := list_levels v he cd in
+      let lens := windows_len o in
+      let es1 := match v with Some vs => sv vs nl es | None => es end in
+      hr = true /\ slots es = length lens /\ so_el_ok el es1 lens /\
+      (m = AllValidList -> mlev inner = 0 /\ Forall (fun e => match e with Slot _ d => d = 0 | _ => True end) es) /\
+      (match v with Some _ => hd = true | None => True end) /\
+      (hd = false -> m = AllValidList /\ Forall (fun l => 0 < l) lens /\ Forall plain es)
+  end.
+
+Fixpoint uls_pre (hr hd : bool) (rs : list raw) (st : astate) : Prop :=
+  match rs with
+  | [] => True
+  | r :: rs' => let '(es, _, cd, _) := st in ul_pre hr hd r (map lm rs') es cd /\ uls_pre hr hd rs' (a_layer r st)
+  end.
+
+Lemma nth_error_mid {A} (a : list A) x b : nth_error (a ++ x :: b) (length a) = Some x.
+Proof. rewrite nth_error_app2 by lia. rewrite Nat.sub_diag. reflexivity. Qed.
+Lemma skipn_mid {A} (a : list A) x b : skipn (S (length a)) (a ++ x :: b) = b.
+Proof.
+  replace (a ++ x :: b) with ((a ++ [x]) ++ b) by (rewrite <- app_assoc; reflexivity).
+  replace (S (length a)) with (length (a ++ [x])) by (rewrite app_length; cbn; lia).
+  rewrite skipn_app, skipn_all, Nat.sub_diag. reflexivity.
+Qed.
+
+Lemma lo_ok_of_eok1 l2r b c rc mo nl un e :
+  un = b -> eok1 l2r b c rc mo nl e -> lo_ok c nl un (un + reach mo) e.
+Proof.
+  intros ->. destruct e as [r d|r d]; cbn [eok1 lo_ok].
+  - intros [Hr Hd]. split; [exact Hr|]. destruct Hd as [Hd|[[Hd _]|(H1 & H2 & _)]]; auto.
+  - intros (Hr & Hd & _). split; assumption.
+Qed.
+
+Lemma list_layer_step hr hd M items A mo m b' c' rc' nl el cd es1 lens :
+  M = A ++ m :: mo -> mlev A = b' -> mlists A = c' -> mrc A = rc' -> m_is_list m = true ->
+  ulist_levels m b' = (nl, el, cd) ->
+  Forall (eok1 (levels_to_rep M) cd (c' + 1) (rc' + (if m_real_list m then 1 else 0)) mo nl) es1 ->
+  slots es1 = length lens -> so_el_ok el es1 lens ->
+  (m = AllValidList -> b' = 0 /\ Forall (fun e => match e with Slot _ d => d = 0 | _ => True end) es1) ->
+  (hd = false -> m = AllValidList /\ Forall (fun l => 0 < l) lens /\ Forall plain es1) ->
+  hr = true ->
+  Forall (eok (levels_to_rep M) b' c' rc' (m :: mo)) (so lens (c' + 1) el es1) /\
+  forall u1', relu hr hd M items b' c' (length A) u1' (so lens (c' + 1) el es1) ->
+    exists u1, comp_unravel_offsets [u1']
+               = Ok ([u1], fst (lo_offs es1 lens 0) ++ [snd (lo_offs es1 lens 0)],
+                     if m_is_all_valid m then None else Some (slot_bits es1)) /\
+               relu hr hd M items cd (c' + 1) (S (length A)) u1 es1.
+Proof.
+  intros HM HA1 HA2 HA3 Hm Hlv Heok1 Hsl Helok Hav Hnodef Hhr. subst hr.
+  assert (Hnth : forall k, (k < N.to_nat (num_def_levels m))%nat ->
+                 nth_error (levels_to_rep M) (N.to_nat b' + 1 + k) = Some (if m_real_list m then rc' + 1 else rc')).
+  { intros k Hk. rewrite HM, <- HA1, <- HA3. apply l2r_at. exact Hk. }
+  assert (Hfacts : b' <= cd /\ (nl = 0 \/ (b' < nl /\ nth_error (levels_to_rep M) (N.to_nat nl) = Some (rc' + 1))) /\
+                   (el = 0 \/ (b' < el /\ nth_error (levels_to_rep M) (N.to_nat el) = Some (rc' + 1))) /\
+                   (m <> AllValidList -> N.max nl el = cd /\ m_real_list m = true) /\ (m = AllValidList -> nl = 0 /\ el = 0 /\ cd = b' /\ m_real_list m = false)).
+  { unfold ulist_levels in Hlv. destruct m; cbn in Hm; try discriminate; inversion Hlv; subst; cbn [num_def_levels m_real_list] in *.
+    - repeat split; try lia; try (left; reflexivity); try congruence.
+    - repeat split; try lia; try (left; reflexivity); try congruence.
+      right. split; [lia|]. replace (N.to_nat (mlev A + 1)) with (N.to_nat (mlev A) + 1 + 0)%nat by lia. apply Hnth. cbn. lia.
+    - repeat split; try lia; try (left; reflexivity); try congruence.
+      right. split; [lia|]. replace (N.to_nat (mlev A + 1)) with (N.to_nat (mlev A) + 1 + 0)%nat by lia. apply Hnth. cbn. lia.
+    - repeat split; try lia; try congruence.
+      + right. split; [lia|]. replace (N.to_nat (mlev A + 1)) with (N.to_nat (mlev A) + 1 + 0)%nat by lia. apply Hnth. cbn. lia.
+      + right. split; [lia|]. replace (N.to_nat (mlev A + 2)) with (N.to_nat (mlev A) + 1 + 1)%nat by lia. apply Hnth. cbn. lia. }
+  destruct Hfacts as (F1 & F2 & F3 & F4 & F5).
+  split.
+  - eapply (eok_so _ cd b' c' _ rc' m mo nl el Hm F1); try eassumption.
+    + destruct (m_real_list m); lia.
+    + destruct (m_real_list m) eqn:Er; [left; lia|right].
+      apply Hav. destruct m; cbn in Hm, Er; try discriminate. reflexivity.
+  - intros u1' Hu1'. destruct hd.
+    + (* definition levels present *)
+      pose proof (step_offsets_def M items b' c' (length A) u1' m mo es1 lens) as Hs. rewrite Hlv in Hs. cbn zeta in Hs.
+      assert (Hun : N.max nl el = cd).
+      { destruct (meaning_eqb m AllValidList) eqn:Em.
+        - assert (m = AllValidList) by (destruct m; cbn in Em; congruence). destruct (F5 H) as (-> & -> & -> & _). destruct (Hav H) as [-> _]. reflexivity.
+        - apply F4. intros ->. discriminate. }
+      apply Hs; try assumption.
+      * rewrite HM. apply nth_error_mid.
+      * rewrite HM. apply skipn_mid.
+      * rewrite Hun. exact F1.
+      * rewrite Hun. eapply Forall_impl; [|exact Heok1]. intros e. apply lo_ok_of_eok1. reflexivity.
+    + (* no definition levels at all *)
+      destruct (Hnodef eq_refl) as (Hmav & Hpos & Hplain). destruct (F5 Hmav) as (-> & -> & -> & Hreal).
+      subst m. cbn [m_is_all_valid].
+      apply (step_offsets_nodef M items b' c' (length A) u1' 0 es1 lens Hu1'); try assumption.
+      * rewrite HM. apply nth_error_mid.
+      * destruct (plain_specs es1 Hplain) as [_ H]. congruence.
+      * eapply Forall_impl; [|exact Heok1]. intros e He. destruct e as [r d|r d]; cbn [eok1 e_rep] in *; destruct He as [He _]; [exact He|right; exact He].
+Qed.
+
+Definition st_es (st : astate) : list ent := let '(es, _, _, _) := st in es.
+
+Lemma rel_def_sv b od vs nl es : nl <> 0 -> nl <= b -> rel_def b od (sv vs nl es) -> rel_def b od es.
+Proof.
+  intros Hn Hle. destruct od as [ds|]; cbn [rel_def].
+  - revert vs ds. induction es as [|e t IH]; intros vs ds H.
+    + cbn in H. inversion H. constructor.
+    + destruct e as [r d|r d].
+      * destruct vs as [|v vs']; cbn [sv] in H; inversion H as [|du ? ds' ? Hr H']; subst; (constructor; [|eapply IH; eassumption]); [exact Hr|].
+        cbn [reld] in *. destruct (d =? 0) eqn:Ed; cbn [andb] in Hr; [|rewrite Ed in Hr; exact Hr].
+        destruct (negb v); [|rewrite Ed in Hr; exact Hr].
+        replace (nl =? 0) with false in Hr by (symmetry; apply N.eqb_neq; exact Hn). lia.
+      * cbn [sv] in H. inversion H as [|du ? ds' ? Hr H']; subst. constructor; [exact Hr|eapply IH; eassumption].
+  - revert vs. induction es as [|e t IH]; intros vs H; [constructor|].
+    destruct e as [r d|r d].
+    + destruct vs as [|v vs']; cbn [sv] in H; inversion H as [|? ? Hp H']; subst; (constructor; [|eapply IH; eassumption]); [exact Hp|].
+      unfold plain in *. cbn [e_rep] in *. injection Hp as Hp. f_equal.
+      destruct (d =? 0) eqn:Ed; cbn [andb] in Hp; [apply N.eqb_eq in Ed; exact Ed|exact Hp].
+    + cbn [sv] in H. inversion H as [|? ? Hp H']; subst. constructor; [exact Hp|eapply IH; eassumption].
+Qed.
+
+
+Theorem unravel_layers hr hd M items : forall rs es cr cd ms,
+  M = rev (ms ++ map lm rs) ->
+  cd = mlev (map lm rs) -> cr = mlists (map lm rs) ->
+  Forall (eok (levels_to_rep M) cd cr (mrc (map lm rs)) (rev ms)) es ->
+  uls_pre hr hd rs (es, cr, cd, ms) ->
+  forall u0, relu hr hd M items 0 0 O u0 (st_es (a_layers rs (es, cr, cd, ms))) ->
+  exists u1, unravel_st [u0] (rev (map lkind rs)) = Ok ([u1], rev (a_outs rs (es, cr, cd, ms))) /\
+             relu hr hd M items cd cr (length rs) u1 es.
+Proof.
+  induction rs as [|r rs IH]; intros es cr cd ms HM Hcd Hcr Heok Hpre u0 Hu0.
+  - cbn in *. subst cd cr. exists u0. split; [reflexivity|exact Hu0].
+  - cbn [map] in HM, Hcd, Hcr, Heok. cbn [uls_pre] in Hpre. destruct Hpre as [Hpre1 Hpre2].
+    set (inner := map lm rs) in *. set (m := lm r) in *.
+    set (A := rev inner). set (mo := rev ms) in *.
+    assert (HM2 : M = A ++ m :: mo).
+    { rewrite HM, rev_app_distr. cbn [rev]. rewrite <- app_assoc. reflexivity. }
+    assert (HlenA : length A = length rs) by (subst A inner; rewrite rev_length, map_length; reflexivity).
+    assert (HA : mlev A = mlev inner /\ mlists A = mlists inner /\ mrc A = mrc inner)
+      by (subst A; rewrite mlev_rev, mlists_rev, mrc_rev; auto).
+    destruct HA as (HA1 & HA2 & HA3).
+    cbn [mlev mlists mrc] in Hcd, Hcr, Heok.
+    set (b' := mlev inner) in *. set (c' := mlists inner) in *. set (rc' := mrc inner) in *.
+    destruct (a_layer_shape r es cr cd ms) as (es' & Est). fold m in Est.
+    assert (Hb' : cd - num_def_levels m = b') by lia.
+    assert (Hc' : cr - (if m_is_list m then 1 else 0) = c') by lia.
+    rewrite Hb', Hc' in Est.
+    assert (HM3 : M = rev ((ms ++ [m]) ++ map lm rs)) by (rewrite HM, <- app_assoc; reflexivity).
+    assert (Hmo' : rev (ms ++ [m]) = m :: mo) by (rewrite rev_app_distr; reflexivity).
+    (* the rest of the proof establishes, per kind of layer: the invariant for es', and the reader step *)
+    assert (Hstep : Forall (eok (levels_to_rep M) b' c' rc' (m :: mo)) es' /\
+                    forall u1', relu hr hd M items b' c' (length rs) u1' es' ->
+                    exists u1 o v, (match lkind r with
+                                    | UValidity => do '(us', v) <- comp_unravel_validity [u1']; Ok (us', v, None)
+                                    | UOffsets => do '(us', o, v) <- comp_unravel_offsets [u1']; Ok (us', v, Some o)
+                                    | UFsl dim => do '(us', v) <- comp_unravel_fsl_validity [u1'] dim; Ok (us', v, None)
+                                    end) = Ok ([u1], v, o) /\ (v, o) = a_out r es cd /\
+                                   relu hr hd M items cd cr (S (length rs)) u1 es).
+    { destruct r as [o v he n sp | [vs|] n | v dim n]; cbn [ul_pre] in Hpre1; [| | |contradiction].
+      - (* list layer *)
+        destruct (list_levels v he cd) as [[m0 nl] el] eqn:Elv.
+        destruct Hpre1 as (Hhr & Hsl & Helok & Hav & Hvhd & Hnd).
+        assert (Hm0 : m0 = m) by (unfold list_levels in Elv; subst m; cbn [lm]; destruct (is_some v), he; inversion Elv; reflexivity).
+        subst m0.
+        assert (Hmlist : m_is_list m = true) by (subst m; cbn [lm]; destruct (is_some v), he; reflexivity).
+        rewrite Hmlist in *.
+        assert (Hulv : ulist_levels m b' = (nl, el, cd) /\ (is_some v = true -> nl <> 0 /\ nl <= cd /\ m_is_all_valid m = false) /\ (is_some v = false -> m_is_all_valid m = true)).
+        { unfold list_levels in Elv. subst m. cbn [lm] in *. destruct (is_some v), he; inversion Elv; subst; cbn [ulist_levels num_def_levels m_is_all_valid] in *;
+            (split; [repeat match goal with |- (_, _) = (_, _) => apply f_equal2 end; try reflexivity; lia|]);
+            split; intros; try discriminate; try reflexivity; repeat split; try lia. }
+        destruct Hulv as (Hulv & Hvsome & Hvnone).
+        set (es1 := match v with Some vs => sv vs nl es | None => es end) in *.
+        assert (Hcrc : cr = c' + 1) by lia.
+        assert (Ees' : es' = so (windows_len o) (c' + 1) el es1).
+        { pose proof (f_equal st_es Est) as E. cbn [a_layer st_es] in E. rewrite <- Hcrc.
+          unfold list_levels in Elv. subst es1. destruct (is_some v), he; inversion Elv; subst; first [exact (eq_sym E) | reflexivity]. }
+        assert (Hrcadd : (if m_real_list m then 1 else 0) + rc' = rc' + (if m_real_list m then 1 else 0)) by lia.
+        rewrite Hrcadd, Hcrc in Heok.
+        assert (Heok1 : Forall (eok1 (levels_to_rep M) cd (c' + 1) (rc' + (if m_real_list m then 1 else 0)) mo nl) es1).
+        { subst es1. destruct v as [vs|].
+          - apply eok1_sv; [apply Hvsome; reflexivity|exact Heok].
+          - eapply Forall_impl; [|exact Heok]. intros e. apply eok1_of_eok. }
+        assert (Hsl1 : slots es1 = length (windows_len o)).
+        { subst es1. destruct v; [rewrite sv_slots|]; exact Hsl. }
+        destruct (list_layer_step hr hd M items A mo m b' c' rc' nl el cd es1 (windows_len o) HM2 HA1 HA2 HA3 Hmlist Hulv Heok1 Hsl1 Helok)
+          as [Heok' Hstep']; [| |exact Hhr|].
+        { intros Hmav. destruct (Hav Hmav) as [H1 H2]. split; [exact H1|].
+          assert (v = None) by (destruct v; [|reflexivity]; exfalso; destruct (Hvsome eq_refl) as (_ & _ & H); rewrite Hmav in H; discriminate).
+          subst es1. rewrite H. exact H2. }
+        { intros Hhd. destruct (Hnd Hhd) as (H1 & H2 & H3). repeat split; [exact H1|exact H2|].
+          assert (v = None) by (destruct v; [|reflexivity]; exfalso; destruct (Hvsome eq_refl) as (_ & _ & H); rewrite H1 in H; discriminate).
+          subst es1. rewrite H. exact H3. }
+        rewrite Ees'. split; [exact Heok'|].
+        intros u1' Hu1'. rewrite <- HlenA. cbn [lkind].
+        destruct (Hstep' u1' ltac:(rewrite HlenA; exact Hu1')) as (u1 & Eu & Hu1).
+        rewrite Eu. cbn [bind].
+        exists u1, (Some (fst (lo_offs es1 (windows_len o) 0) ++ [snd (lo_offs es1 (windows_len o) 0)])),
+                   (if m_is_all_valid m then None else Some (slot_bits es1)).
+        split; [reflexivity|]. split.
+        { cbn [a_out]. rewrite Elv. fold es1. f_equal. destruct v as [vs|].
+          - destruct (Hvsome eq_refl) as (_ & _ & ->). reflexivity.
+          - rewrite (Hvnone eq_refl). reflexivity. }
+        rewrite Hcrc. destruct Hu1 as [Hrep Hdef H3 H4 H5 H6 H7 H8 H9 H10].
+        constructor; try assumption.
+        + unfold rel_rep in *. destruct (u_rep u1); [|exact I]. subst es1. destruct v as [vs|]; [|exact Hrep]. rewrite Hrep. apply sv_rep_sub.
+        + subst es1. destruct v as [vs|]; [|exact Hdef]. destruct (Hvsome eq_refl) as (Hn1 & Hn2 & _).
+          eapply rel_def_sv; eassumption.
+      - (* nullable item layer *)
+        cbn [lm] in m. destruct Hpre1 as [Hhd HK6]. subst hd.
+        pose proof (f_equal st_es Est) as Ees'. cbn [a_layer a_validity st_es] in Ees'. clear Est. subst es'.
+        subst m. cbn [num_def_levels m_is_list m_real_list] in *.
+        assert (Hcdb : cd = b' + 1) by lia. assert (Hcrc : cr = c') by lia.
+        rewrite Hcdb in *. rewrite Hcrc in *. rewrite N.add_0_l in Heok.
+        assert (Hnth : nth_error (levels_to_rep M) (N.to_nat (b' + 1)) = Some rc').
+        { rewrite HM2. replace (N.to_nat (b' + 1)) with (N.to_nat (mlev A) + 1 + 0)%nat by lia.
+          rewrite l2r_at by (cbn; lia). cbn [m_real_list]. rewrite HA3. reflexivity. }
+        pose proof (eok_sv _ _ _ _ _ vs Hnth es Heok) as Heok'.
+        split; [exact Heok'|].
+        intros u1' Hu1'. cbn [lkind].
+        destruct (step_validity_some hr M items b' c' (length rs) u1' vs es Hu1') as (u1 & Eu & Hu1).
+        + rewrite HM2, <- HlenA. apply nth_error_mid.
+        + intros j Hj. rewrite HM2. destruct (l2r_low A (NullableItem :: mo) j) as (x & Hx1 & Hx2); [lia|].
+          exists x. split; [exact Hx1|]. pose proof (mrc_le_mlists inner). lia.
+        + rewrite Forall_forall in Heok' |- *. intros e He. specialize (Heok' e He). destruct e as [r0 d0|r0 d0]; cbn [eok vis_ok] in *.
+          * destruct Heok' as [_ [Hd|(H1 & H2 & H3)]]; [left; exact Hd|right]. split; [exact H1|]. exists rc'. split; [exact H3|].
+            pose proof (mrc_le_mlists inner). lia.
+          * destruct Heok' as (_ & _ & x & Hx & Hlt). exists x. split; [exact Hx|].
+            destruct HK6 as [HK6|HK6]; [|lia]. exfalso. rewrite <- (sv_specs vs (b' + 1) es) in HK6.
+            exact (specs_zero_no_spec _ _ _ HK6 He).
+        + rewrite Forall_forall in Heok |- *. intros e He. specialize (Heok e He). destruct e as [r0 d0|r0 d0]; [|exact I].
+          destruct Heok as [_ [Hd|(H1 & _)]]; [left; exact Hd|right; exact H1].
+        + rewrite Eu. cbn [bind]. exists u1, None, (Some (slot_bits (sv vs (b' + 1) es))).
+          split; [reflexivity|]. split; [reflexivity|exact Hu1].
+      - (* all-valid item layer *)
+        cbn [lm] in m. pose proof (f_equal st_es Est) as Ees'. cbn [a_layer a_validity st_es] in Ees'. clear Est. subst es'.
+        subst m. cbn [num_def_levels m_is_list m_real_list] in *.
+        assert (Hcdb : cd = b') by lia. assert (Hcrc : cr = c') by lia. rewrite Hcdb, Hcrc in *. rewrite N.add_0_l in Heok.
+        split; [eapply Forall_impl; [|exact Heok]; intros e; apply eok_allvalid_item|].
+        intros u1' Hu1'. cbn [lkind].
+        destruct (step_validity_none hr hd M items b' c' (length rs) u1' es Hu1') as (u1 & Eu & Hu1).
+        + rewrite HM2, <- HlenA. apply nth_error_mid.
+        + rewrite Eu. cbn [bind]. exists u1, None, None. split; [reflexivity|]. split; [reflexivity|exact Hu1]. }
+    destruct Hstep as [Heok' Hstep].
+    (* inner layers by the induction hypothesis *)
+    assert (Hlayers : a_layers (r :: rs) (es, cr, cd, ms) = a_layers rs (es', c', b', ms ++ [m])).
+    { unfold a_layers. cbn [fold_left]. rewrite Est. reflexivity. }
+    rewrite Hlayers in Hu0.
+    assert (Hpre2' : uls_pre hr hd rs (es', c', b', ms ++ [m])) by (rewrite <- Est; exact Hpre2).
+    assert (Heok'' : Forall (eok (levels_to_rep M) b' c' (mrc (map lm rs)) (rev (ms ++ [m]))) es') by (rewrite Hmo'; exact Heok').
+    destruct (IH es' c' b' (ms ++ [m]) HM3 eq_refl eq_refl Heok'' Hpre2' u0 Hu0) as (u1' & Eu1' & Hu1').
+    destruct (Hstep u1' Hu1') as (u1 & o & v & Estep & Eout & Hu1).
+    exists u1. split; [|exact Hu1].
+    cbn [map rev a_outs]. rewrite (unravel_st_app _ _ [lkind r] _ _ Eu1'). rewrite Est.
+    cbn [unravel_st]. rewrite <- Eout.
+    destruct (lkind r); cbn [unravel_st].
+    + destruct (comp_unravel_validity [u1']) as [[us' v']| |]; cbn [bind] in *; try discriminate. inversion Estep; subst. reflexivity.
+    + destruct (comp_unravel_offsets [u1']) as [[[us' o'] v']| |]; cbn [bind] in *; try discriminate. inversion Estep; subst. reflexivity.
+    + destruct (comp_unravel_fsl_validity [u1'] dim) as [[us' v']| |]; cbn [bind] in *; try discriminate. inversion Estep; subst. reflexivity.
+Qed.
+
+(* ============================================================================================== *)
+(* 4. Assembly                                                                                      *)
+
+(* ---------------------------------------------------------------------------------------------- *)
+(* 4.1 the builder records raw_of_call                                                             *)
+
+
+Lemma prefix_sums_cons acc l : prefix_sums acc l = acc :: tl (prefix_sums acc l).
+Proof. destruct l; reflexivity. Qed.
+
+Ltac tuple_eq := repeat match goal with |- (_, _) = (_, _) => apply f_equal2 end.
+
+Lemma add_offs_valid_spec : forall lens vs sp he hg lastv acc,
+  let info := map2 (fun (b : bool) (l : N) => (b, if b then l else 0)) vs lens in
+  exists hg' lastv', add_offs_valid lens vs sp he hg lastv acc
+  = ((sp + length (filter info_special info))%nat, he || existsb info_empty info, hg', lastv',
+     rev (tl (prefix_sums lastv (map snd info))) ++ acc).
+Proof.
+  induction lens as [|len lens IH]; intros vs sp he hg lastv acc info.
+  - subst info. destruct vs; cbn; rewrite Nat.add_0_r, orb_false_r; eexists; eexists; reflexivity.
+  - destruct vs as [|v vs]; [subst info; cbn; rewrite Nat.add_0_r, orb_false_r; eexists; eexists; reflexivity|].
+    subst info. cbn [map2 add_offs_valid].
+    set (info' := map2 (fun (b : bool) (l : N) => (b, if b then l else 0)) vs lens) in *.
+    destruct v.
+    + destruct (len =? 0) eqn:El.
+      * destruct (IH vs (S sp) true hg lastv (lastv :: acc)) as (hg' & l' & E). rewrite E. exists hg', l'. fold info'.
+        cbn [map snd filter info_special info_empty existsb negb orb andb prefix_sums tl]. rewrite El. cbn [length orb].
+        apply N.eqb_eq in El. subst len. rewrite N.add_0_r.
+        rewrite (prefix_sums_cons lastv). cbn [rev]. rewrite <- app_assoc. cbn [app].
+        rewrite orb_true_r. tuple_eq; try reflexivity. lia.
+      * destruct (IH vs sp he hg (lastv + len) ((lastv + len) :: acc)) as (hg' & l' & E). rewrite E. exists hg', l'. fold info'.
+        cbn [map snd filter info_special info_empty existsb negb orb andb prefix_sums tl]. rewrite El. cbn [length orb].
+        rewrite (prefix_sums_cons (lastv + len)). cbn [rev]. rewrite <- app_assoc. cbn [app].
+        tuple_eq; reflexivity.
+    + assert (Em : forall X Y : nat * bool * bool * N * list N, (if len =? 0 then X else Y) = (if len =? 0 then X else Y)) by reflexivity.
+      destruct (IH vs (S sp) he (hg || negb (len =? 0)) lastv (lastv :: acc)) as (hg' & l' & E).
+      exists hg', l'. fold info' in E.
+      replace (if len =? 0 then add_offs_valid lens vs (S sp) he (hg || negb true) lastv (lastv :: acc)
+               else add_offs_valid lens vs (S sp) he (hg || negb false) lastv (lastv :: acc))
+        with (add_offs_valid lens vs (S sp) he (hg || negb (len =? 0)) lastv (lastv :: acc)) by (destruct (len =? 0); reflexivity).
+      rewrite E.
+      cbn [map snd filter info_special info_empty existsb negb orb andb prefix_sums tl length].
+      change (0 =? 0) with true. cbn [orb andb length]. rewrite N.add_0_r.
+      rewrite (prefix_sums_cons lastv). cbn [rev]. rewrite <- app_assoc. cbn [app].
+      tuple_eq; try reflexivity. lia.
+Qed.
+
+Lemma add_offs_novalid_spec : forall lens sp he lastv acc,
+  let info := map (fun l : N => (true, l)) lens in
+  exists lastv', add_offs_novalid lens sp he lastv acc
+  = ((sp + length (filter info_special info))%nat, he || existsb info_empty info, lastv',
+     rev (tl (prefix_sums lastv (map snd info))) ++ acc).
+Proof.
+  induction lens as [|len lens IH]; intros sp he lastv acc info.
+  - subst info. cbn. rewrite Nat.add_0_r, orb_false_r. eexists. reflexivity.
+  - subst info. cbn [map add_offs_novalid].
+    set (info' := map (fun l : N => (true, l)) lens) in *.
+    destruct (len =? 0) eqn:El.
+    + destruct (IH (S sp) true (lastv + len) ((lastv + len) :: acc)) as (l' & E). rewrite E. exists l'. fold info'.
+      cbn [map snd filter info_special info_empty existsb negb orb andb prefix_sums tl]. rewrite El. cbn [length orb].
+      rewrite (prefix_sums_cons (lastv + len)). cbn [rev]. rewrite <- app_assoc. cbn [app].
+      rewrite orb_true_r. tuple_eq; try reflexivity. lia.
+    + destruct (IH sp he (lastv + len) ((lastv + len) :: acc)) as (l' & E). rewrite E. exists l'. fold info'.
+      cbn [map snd filter info_special info_empty existsb negb orb andb prefix_sums tl]. rewrite El. cbn [length orb].
+      rewrite (prefix_sums_cons (lastv + len)). cbn [rev]. rewrite <- app_assoc. cbn [app].
+      tuple_eq; reflexivity.
+Qed.
+
+Lemma prefix_sums_length acc l : length (prefix_sums acc l) = S (length l).
+Proof. revert acc; induction l as [|x t IH]; intros acc; cbn [prefix_sums length]; [reflexivity|]. rewrite IH. reflexivity. Qed.
+
+Lemma add_offsets_spec b offs v :
+  (match b_len b with Some len => length (list_info offs v) = len | None => True end) ->
+  exists hg, add_offsets b offs v
+  = Ok ({| b_repdefs := b_repdefs b ++ [raw_of_call (COffsets offs v)];
+           b_len := Some (N.to_nat (last (prefix_sums 0 (map snd (list_info offs v))) 0)) |}, hg).
+Proof.
+  intros Hlen. unfold add_offsets, raw_of_call, list_info in *.
+  destruct v as [vs|].
+  - destruct (add_offs_valid_spec (windows_len offs) vs O false false 0 [0]) as (hg & l' & E). cbn zeta in E. rewrite E.
+    set (info := map2 (fun (b : bool) (l : N) => (b, if b then l else 0)) vs (windows_len offs)) in *.
+    assert (Hn : rev (rev (tl (prefix_sums 0 (map snd info))) ++ [0]) = prefix_sums 0 (map snd info)).
+    { rewrite rev_app_distr, rev_involutive. cbn [rev app]. symmetry. apply prefix_sums_cons. }
+    rewrite Hn.
+    assert (Ha : (match b_len b with Some len => assert_ (Nat.eqb (length (prefix_sums 0 (map snd info))) (len + 1)) | None => Ok tt end) = Ok tt).
+    { destruct (b_len b); [|reflexivity]. rewrite prefix_sums_length, map_length, Hlen. replace (Nat.eqb (S n) (n + 1)) with true by (symmetry; apply Nat.eqb_eq; lia). reflexivity. }
+    rewrite Ha. cbn [bind]. exists hg. cbn [orb plus]. reflexivity.
+  - destruct (add_offs_novalid_spec (windows_len offs) O false 0 [0]) as (l' & E). cbn zeta in E. rewrite E.
+    set (info := map (fun l : N => (true, l)) (windows_len offs)) in *.
+    assert (Hn : rev (rev (tl (prefix_sums 0 (map snd info))) ++ [0]) = prefix_sums 0 (map snd info)).
+    { rewrite rev_app_distr, rev_involutive. cbn [rev app]. symmetry. apply prefix_sums_cons. }
+    rewrite Hn.
+    assert (Ha : (match b_len b with Some len => assert_ (Nat.eqb (length (prefix_sums 0 (map snd info))) (len + 1)) | None => Ok tt end) = Ok tt).
+    { destruct (b_len b); [|reflexivity]. rewrite prefix_sums_length, map_length, Hlen. replace (Nat.eqb (S n) (n + 1)) with true by (symmetry; apply Nat.eqb_eq; lia). reflexivity. }
+    rewrite Ha. cbn [bind]. exists false. cbn [orb plus]. reflexivity.
+Qed.
+
+Definition is_fsl (c : call) : bool := match c with CFsl _ _ _ => true | _ => false end.
+Definition no_fsl (cs : list call) : bool := negb (existsb is_fsl cs).
+
+Fixpoint spec_items (n : nat) (cs : list call) : nat :=
+  match cs with
+  | [] => n
+  | CValidity v :: t => spec_items (length v) t
+  | CNoNull k :: t => spec_items k t
+  | COffsets offs v :: t => spec_items (N.to_nat (last (prefix_sums 0 (map snd (list_info offs v))) 0)) t
+  | CFsl _ dim k :: t => spec_items (k * dim) t
+  end.
+
+Lemma map2_length {A B C} (f : A -> B -> C) l1 l2 : length l1 = length l2 -> length (map2 f l1 l2) = length l1.
+Proof. revert l2; induction l1 as [|a t IH]; intros [|b l2] H; cbn in *; try discriminate; [reflexivity|]. rewrite IH by lia. reflexivity. Qed.
+
+Lemma windows_len_length offs : length (windows_len offs) = (length offs - 1)%nat.
+Proof.
+  induction offs as [|a [|b t] IH]; [reflexivity|reflexivity|].
+  cbn [windows_len length] in *. rewrite IH. lia.
+Qed.
+
+Lemma list_info_length offs v n :
+  length offs = S n -> match v with Some vs => length vs = n | None => True end -> length (list_info offs v) = n.
+Proof.
+  intros Ho Hv. unfold list_info. pose proof (windows_len_length offs) as Hw. rewrite Ho in Hw. cbn in Hw. rewrite Nat.sub_0_r in Hw.
+  destruct v as [vs|]; [rewrite map2_length; lia | rewrite map_length; exact Hw].
+Qed.
+
+Lemma apply_calls_spec : forall cs mask b flags outs,
+  spec_layers mask cs = Some outs -> no_fsl cs = true ->
+  (b_len b = None \/ b_len b = Some (length mask)) ->
+  exists b' fl, apply_calls b cs flags = Ok (b', fl) /\
+    b_repdefs b' = b_repdefs b ++ map raw_of_call cs /\
+    b_len b' = match cs with [] => b_len b | _ => Some (spec_items O cs) end.
+Proof.
+  induction cs as [|c cs IH]; intros mask b flags outs Hspec Hnf Hlen.
+  - eexists. eexists. cbn. rewrite app_nil_r. repeat split; reflexivity.
+  - unfold no_fsl in Hnf. cbn [existsb] in Hnf. apply negb_true_iff, orb_false_iff in Hnf. destruct Hnf as [Hc Hnf].
+    assert (Hnf' : no_fsl cs = true) by (unfold no_fsl; rewrite Hnf; reflexivity).
+    destruct c as [v | n | offs v | v dim n]; cbn [is_fsl] in Hc; [| | |discriminate]; cbn [spec_layers] in Hspec.
+    + destruct (Nat.eqb (length v) (length mask)) eqn:El; [|discriminate]. apply Nat.eqb_eq in El.
+      destruct (spec_layers (map2 andb mask v) cs) as [outs'|] eqn:Es; [|discriminate].
+      assert (Hck : check_validity_len b (length v) = Ok (Some (length v))).
+      { unfold check_validity_len. destruct Hlen as [-> | ->]; [reflexivity|]. rewrite El, Nat.eqb_refl. rewrite <- El. reflexivity. }
+      cbn [apply_calls apply_call]. rewrite Hck. cbn [bind].
+      destruct (IH (map2 andb mask v) {| b_repdefs := b_repdefs b ++ [RValidity (Some v) (length v)]; b_len := Some (length v) |} (false :: flags) outs' Es Hnf')
+        as (b' & fl & E & Hr & Hl).
+      { right. cbn [b_len]. rewrite map2_length by lia. f_equal. lia. }
+      exists b', fl. split; [exact E|]. cbn [b_repdefs b_len] in Hr, Hl. split.
+      * rewrite Hr, <- app_assoc. reflexivity.
+      * rewrite Hl. destruct cs; reflexivity.
+    + destruct (Nat.eqb n (length mask)) eqn:El; [|discriminate]. apply Nat.eqb_eq in El.
+      destruct (spec_layers mask cs) as [outs'|] eqn:Es; [|discriminate].
+      assert (Hck : check_validity_len b n = Ok (Some n)).
+      { unfold check_validity_len. destruct Hlen as [-> | ->]; [reflexivity|]. rewrite El, Nat.eqb_refl. reflexivity. }
+      cbn [apply_calls apply_call]. rewrite Hck. cbn [bind].
+      destruct (IH mask {| b_repdefs := b_repdefs b ++ [RValidity None n]; b_len := Some n |} (false :: flags) outs' Es Hnf')
+        as (b' & fl & E & Hr & Hl).
+      { right. cbn [b_len]. f_equal. exact El. }
+      exists b', fl. split; [exact E|]. cbn [b_repdefs b_len] in Hr, Hl. split.
+      * rewrite Hr, <- app_assoc. reflexivity.
+      * rewrite Hl. destruct cs; reflexivity.
+    + destruct (sorted offs && Nat.eqb (length offs) (S (length mask))
+                && match v with Some vs => Nat.eqb (length vs) (length mask) | None => true end
+                && forallb (fun '(m, (_, len)) => m || (len =? 0)) (combine mask (list_info offs v))) eqn:Ec; [|discriminate].
+      apply andb_true_iff in Ec as [Ec Hmasked]. apply andb_true_iff in Ec as [Ec Hvl]. apply andb_true_iff in Ec as [Hsorted Hol].
+      apply Nat.eqb_eq in Hol.
+      set (items := N.to_nat (last (prefix_sums 0 (map snd (list_info offs v))) 0)) in *.
+      destruct (spec_layers (repeat true items) cs) as [outs'|] eqn:Es; [|discriminate].
+      assert (Hil : length (list_info offs v) = length mask).
+      { apply list_info_length; [exact Hol|]. destruct v; [apply Nat.eqb_eq; exact Hvl | exact I]. }
+      destruct (add_offsets_spec b offs v) as (hg & Ea).
+      { destruct Hlen as [-> | ->]; [exact I | exact Hil]. }
+      cbn [apply_calls apply_call]. rewrite Ea. cbn [bind]. fold items.
+      destruct (IH (repeat true items) {| b_repdefs := b_repdefs b ++ [raw_of_call (COffsets offs v)]; b_len := Some items |} (hg :: flags) outs' Es Hnf')
+        as (b' & fl & E & Hr & Hl).
+      { right. cbn [b_len]. rewrite repeat_length. reflexivity. }
+      exists b', fl. split; [exact E|]. cbn [b_repdefs b_len] in Hr, Hl. split.
+      * rewrite Hr, <- app_assoc. reflexivity.
+      * rewrite Hl. cbn [spec_items]. fold items. destruct cs; reflexivity.
+Qed.
+
+(* ---------------------------------------------------------------------------------------------- *)
+(* 4.2 serialize of a single builder                                                               *)
+
+Definition raw_norm (r : raw) : Prop :=
+  match r with ROffsets o _ _ _ _ => exists t, o = 0 :: t | _ => True end.
+
+Lemma concat_single r : raw_norm r -> concat_layers [r] = r.
+Proof.
+  destruct r as [o v he n sp | v n | v dim n]; cbn [raw_norm]; intros Hn.
+  - destruct Hn as (t & ->). unfold concat_layers.
+    cbn [existsb raw_has_nulls fold_left raw_num_specials raw_num_values orb plus last tl].
+    rewrite orb_false_r. destruct v as [vs|]; cbn [is_some]; cbn [fold_left app last tl map];
+      rewrite ?Nat.add_0_l, ?orb_false_r; (replace (map (fun x => x + 0) t) with t by (symmetry; erewrite map_ext; [apply map_id|]; intros; cbn; lia)); reflexivity.
+  - unfold concat_layers. cbn [existsb raw_has_nulls fold_left raw_num_specials raw_num_values orb plus].
+    destruct v as [vs|]; cbn [is_some orb fold_left app]; reflexivity.
+  - unfold concat_layers. cbn [existsb raw_has_nulls fold_left raw_num_specials raw_num_values orb plus].
+    destruct v as [vs|]; cbn [is_some orb fold_left app]; reflexivity.
+Qed.
+
+Lemma raw_of_call_norm c : raw_norm (raw_of_call c).
+Proof. destruct c; cbn [raw_of_call raw_norm]; try exact I. rewrite prefix_sums_cons. eexists. reflexivity. Qed.
+
+Lemma combined_single b :
+  Forall raw_norm (b_repdefs b) ->
+  fold_right (fun i acc => do t <- acc;
+                           do col <- fold_right (fun b0 acc0 => do t0 <- acc0; match nth_error (b_repdefs b0) i with Some r => Ok (r :: t0) | None => Panic end) (Ok []) [b];
+                           Ok (concat_layers col :: t))
+             (Ok []) (seq 0 (length (b_repdefs b)))
+  = Ok (b_repdefs b).
+Proof.
+  intros Hn. 
+  assert (H : forall pre rs, b_repdefs b = pre ++ rs -> Forall raw_norm rs ->
+    fold_right (fun i acc => do t <- acc;
+                           do col <- fold_right (fun b0 acc0 => do t0 <- acc0; match nth_error (b_repdefs b0) i with Some r => Ok (r :: t0) | None => Panic end) (Ok []) [b];
+                           Ok (concat_layers col :: t))
+             (Ok []) (seq (length pre) (length rs)) = Ok rs).
+  { intros pre rs. revert pre. induction rs as [|r rs IH]; intros pre E Hf; [reflexivity|].
+    cbn [length seq]. inversion Hf as [|? ? Hr Hf']; subst.
+    match goal with |- fold_right ?f ?a (?x :: ?l) = _ => change (fold_right f a (x :: l)) with (f x (fold_right f a l)) end.
+    cbv beta.
+    replace (S (length pre)) with (length (pre ++ [r])) by (rewrite app_length; cbn; lia).
+    rewrite (IH (pre ++ [r])); [|rewrite <- app_assoc; exact E|exact Hf'].
+    cbn [bind fold_right]. rewrite E.
+    replace (nth_error (pre ++ r :: rs) (length pre)) with (Some r) by (symmetry; apply nth_error_mid).
+    cbn [bind]. rewrite concat_single by exact Hr. reflexivity. }
+  apply (H [] (b_repdefs b)); [reflexivity|exact Hn].
+Qed.
+
+(* ---------------------------------------------------------------------------------------------- *)
+(* 4.3 a list layer in terms of the spec's (mask, info)                                            *)
+
+Lemma windows_prefix_sums acc l : windows_len (prefix_sums acc l) = l.
+Proof.
+  revert acc; induction l as [|x t IH]; intros acc; [reflexivity|].
+  cbn [prefix_sums]. specialize (IH (acc + x)). rewrite (prefix_sums_cons (acc + x)) in *.
+  cbn [windows_len] in *. rewrite IH. f_equal. lia.
+Qed.
+
+Lemma sv_true vs nl es : Forall (fun v => v = true) vs -> sv vs nl es = es.
+Proof.
+  intros H. revert es. induction H as [|v vs Hv _ IH]; intros es.
+  - induction es as [|[r d|r d] t IHt]; cbn [sv]; [reflexivity| |]; rewrite IHt; reflexivity.
+  - induction es as [|[r d|r d] t IHt]; cbn [sv]; [reflexivity| |].
+    + subst v. cbn [negb]. rewrite andb_false_r, IH. reflexivity.
+    + rewrite IHt. reflexivity.
+Qed.
+
+Definition sumN' (l : list N) : N := fold_right N.add 0 l.
+Lemma last_prefix_sums acc l : last (prefix_sums acc l) 0 = acc + sumN' l.
+Proof.
+  revert acc; induction l as [|x t IH]; intros acc; cbn [prefix_sums sumN' fold_right last]; [lia|].
+  specialize (IH (acc + x)). rewrite (prefix_sums_cons (acc + x)) in *. rewrite IH. fold (sumN' t). lia.
+Qed.
+
+Lemma removelast_cons_ps a b l : removelast (a :: prefix_sums b l) = a :: removelast (prefix_sums b l).
+Proof. rewrite (prefix_sums_cons b). reflexivity. Qed.
+Lemma last_cons_ps a b l d : last (a :: prefix_sums b l) d = last (prefix_sums b l) d.
+Proof. rewrite (prefix_sums_cons b). reflexivity. Qed.
+
+(* per slot: (mask bit is d = 0), info = (valid, normalized length) *)
+Definition info_wf (p : N * N * (bool * N)) : Prop :=
+  let '(_, d, (v, len)) := p in (d <> 0 -> len = 0) /\ (v = false -> len = 0).
+
+Lemma list_step_facts cr nl el : nl <> 0 -> forall es info,
+  slots es = length info ->
+  Forall info_wf (slot_pairs es info) ->
+  (existsb info_empty info = true -> 1 <= el) ->
+  let es1 := sv (map fst info) nl es in
+  let es2 := so (map snd info) cr el es1 in
+  slot_bits es2 = repeat true (N.to_nat (sumN' (map snd info))) /\
+  specs es2 = (specs es + length (filter info_special info))%nat /\
+  so_el_ok el es1 (map snd info) /\
+  (forall cur, lo_offs es1 (map snd info) cur = (removelast (prefix_sums cur (map snd info)), last (prefix_sums cur (map snd info)) 0)) /\
+  slot_bits es1 = map2 andb (slot_bits es) (map fst info).
+Proof.
+  intros Hnl. induction es as [|e t IH]; intros info Hsl Hwf Hel.
+  - destruct info; [|discriminate]. cbn. repeat split; try constructor.
+  - destruct e as [r d|r d].
+    + destruct info as [|[v len] info']; [rewrite slots_cons_slot in Hsl; discriminate|].
+      rewrite slots_cons_slot in Hsl. cbn [length] in Hsl. injection Hsl as Hsl.
+      cbn [slot_pairs] in Hwf. inversion Hwf as [|? ? Hw Hwf']; subst. cbn [info_wf] in Hw. destruct Hw as [Hw1 Hw2].
+      assert (Hel' : existsb info_empty info' = true -> 1 <= el) by (intros H; apply Hel; cbn [existsb]; rewrite H; apply orb_true_r).
+      destruct (IH info' Hsl Hwf' Hel') as (I1 & I2 & I3 & I4 & I5).
+      cbn zeta. cbn [map fst snd sv so].
+      set (d1 := if (d =? 0) && negb v then nl else d).
+      assert (Hd1 : (d1 =? 0) = (d =? 0) && v).
+      { subst d1. destruct (d =? 0) eqn:Ed; cbn [andb]; [|rewrite Ed; reflexivity]. destruct v; cbn [negb]; [exact Ed|]. apply N.eqb_neq. exact Hnl. }
+      assert (Hlen0 : (d =? 0) && v = false -> len = 0).
+      { intros H. apply andb_false_iff in H as [H|H]; [apply Hw1; apply N.eqb_neq; exact H | apply Hw2; exact H]. }
+      unfold slot_bits in *. cbn [filter is_slot map e_def sumN' fold_right]. fold (sumN' (map snd info')).
+      rewrite Hd1. 
+      destruct ((d =? 0) && v) eqn:Edv; cbn [andb].
+      * destruct (0 <? len) eqn:El.
+        -- apply N.ltb_lt in El. repeat split.
+           ++ rewrite filter_app, map_app. cbn [filter is_slot map e_def].
+              assert (Hrep : forall k, map (fun e => e_def e =? 0) (filter is_slot (repeat (Slot 0 0) k)) = repeat true k).
+              { induction k as [|k IHk]; [reflexivity|]. cbn [repeat filter is_slot map e_def]. rewrite IHk. reflexivity. }
+              rewrite Hrep, I1. change (0 =? 0) with true.
+              replace (N.to_nat (len + sumN' (map snd info'))) with (S (N.to_nat (len - 1)) + N.to_nat (sumN' (map snd info')))%nat by lia.
+              rewrite repeat_app. reflexivity.
+           ++ rewrite specs_app, I2. cbn [filter info_special]. apply andb_true_iff in Edv as [_ ->]. cbn [negb orb].
+              replace (len =? 0) with false by (symmetry; apply N.eqb_neq; lia).
+              assert (Hs0 : specs (Slot (if r =? 0 then cr else r) 0 :: repeat (Slot 0 0) (N.to_nat (len - 1))) = O).
+              { rewrite specs_cons_slot. induction (N.to_nat (len - 1)); [reflexivity|]. cbn [repeat]. rewrite specs_cons_slot. assumption. }
+              rewrite Hs0, specs_cons_slot. reflexivity.
+           ++ unfold so_el_ok. cbn [slot_pairs]. constructor; [intros _ H0; lia|exact I3].
+           ++ intros cur. cbn [lo_offs]. rewrite Hd1, I4. cbn [prefix_sums].
+              rewrite removelast_cons_ps, last_cons_ps. reflexivity.
+           ++ cbn [map2]. rewrite Edv. f_equal. exact I5.
+        -- apply N.ltb_ge in El. assert (len = 0) by lia. subst len. repeat split.
+           ++ cbn [app filter is_slot]. rewrite I1. rewrite N.add_0_l. reflexivity.
+           ++ cbn [app]. rewrite specs_cons_spec, I2. cbn [filter info_special]. change (0 =? 0) with true. rewrite orb_true_r.
+              rewrite specs_cons_slot. cbn [length]. lia.
+           ++ unfold so_el_ok. cbn [slot_pairs]. constructor; [|exact I3]. intros _ _. apply Hel. cbn [existsb info_empty].
+              apply andb_true_iff in Edv as [_ ->]. reflexivity.
+           ++ intros cur. cbn [lo_offs]. rewrite Hd1, I4. cbn [prefix_sums].
+              rewrite removelast_cons_ps, last_cons_ps. reflexivity.
+           ++ cbn [map2]. rewrite Edv. f_equal. exact I5.
+      * specialize (Hlen0 eq_refl). subst len. repeat split.
+        -- cbn [app filter is_slot]. rewrite I1. rewrite N.add_0_l. reflexivity.
+        -- cbn [app]. rewrite specs_cons_spec, I2. cbn [filter info_special]. change (0 =? 0) with true. rewrite orb_true_r.
+           rewrite specs_cons_slot. cbn [length]. lia.
+        -- unfold so_el_ok. cbn [slot_pairs]. constructor; [|exact I3]. intros H0. apply N.eqb_eq in H0. rewrite Hd1 in H0. discriminate.
+        -- intros cur. cbn [lo_offs]. rewrite Hd1, I4. cbn [prefix_sums].
+           rewrite removelast_cons_ps, last_cons_ps. reflexivity.
+        -- cbn [map2]. rewrite Edv. f_equal. exact I5.
+    + rewrite slots_cons_spec in Hsl. cbn [slot_pairs] in Hwf.
+      destruct (IH info Hsl Hwf Hel) as (I1 & I2 & I3 & I4 & I5).
+      cbn zeta. cbn [sv so]. unfold slot_bits in *. cbn [filter is_slot]. repeat split; try assumption.
+      rewrite !specs_cons_spec, I2. reflexivity.
+Qed.
+
+(* ---------------------------------------------------------------------------------------------- *)
+(* 4.4 known-finding classes (boolean predicates on the builder calls of one page)                  *)
+
+Definition cmeaning (c : call) : meaning := lm (raw_of_call c).
+Definition c_is_list (c : call) : bool := match c with COffsets _ _ => true | _ => false end.
+
+(* F21: the current_len bookkeeping of SerializerContext.  Some final current_len | None: the
+   debug_assert at repdef.rs:626 fails *)
+Fixpoint bk_ok (cs : list call) (cl sp : nat) : option nat :=
+  match cs with
+  | [] => Some cl
+  | CValidity v :: t => if Nat.eqb cl 0 || Nat.eqb cl (length v + sp) then bk_ok t (length v) sp else None
+  | CNoNull _ :: t => bk_ok t cl sp
+  | COffsets offs v :: t =>
+      let info := list_info offs v in
+      let spn := length (filter info_special info) in
+      let items := N.to_nat (last (prefix_sums 0 (map snd info)) 0) in
+      if match v with Some _ => Nat.eqb cl 0 || Nat.eqb cl (length info + sp) | None => true end
+      then bk_ok t (items + sp + spn) (sp + spn) else None
+  | CFsl _ _ _ :: _ => None
+  end.
+Definition Known_C27_list_of_nullable_struct_repdef (cs : list call) : bool :=
+  match bk_ok cs 0 0 with None => true | Some cl => Nat.eqb cl 0 end.
+
+(* unravel_offsets of an AllValidList layer with definition levels inside it *)
+Fixpoint Known_C27_allvalid_list_over_nullable_items (cs : list call) : bool :=
+  match cs with
+  | [] => false
+  | c :: t => (meaning_eqb (cmeaning c) AllValidList && (0 <? mlev (map cmeaning t)))
+              || Known_C27_allvalid_list_over_nullable_items t
+  end.
+
+(* levels_to_rep ignores AllValidList: a nullable item layer with a list outside and an all-valid list inside *)
+Fixpoint k6 (outside : bool) (cs : list call) : bool :=
+  match cs with
+  | [] => false
+  | c :: t =>
+      (match c with
+       | CValidity _ => outside && existsb (fun c' => meaning_eqb (cmeaning c') AllValidList) t
+       | _ => false
+       end) || k6 (outside || c_is_list c) t
+  end.
+Definition Known_C27_allvalid_list_inside_nullable_struct (cs : list call) : bool := k6 false cs.
+
+(* helper lemmas for the glue *)
+Lemma map_fst_map2 {A B} (vs : list bool) (lens : list A) (g : bool -> A -> B) :
+  length vs = length lens -> map fst (map2 (fun b l => (b, g b l)) vs lens) = vs.
+Proof. revert lens; induction vs as [|v t IH]; intros [|l lens] H; cbn in *; try discriminate; [reflexivity|]. rewrite IH by lia. reflexivity. Qed.
+
+Lemma slot_bits_length es : length (slot_bits es) = slots es.
+Proof. unfold slot_bits, slots. apply map_length. Qed.
+
+Lemma sv_bits nl : nl <> 0 -> forall es vs, slots es = length vs -> slot_bits (sv vs nl es) = map2 andb (slot_bits es) vs.
+Proof.
+  intros Hnl. unfold slot_bits. induction es as [|[r d|r d] t IH]; intros vs H.
+  - destruct vs; [reflexivity|discriminate].
+  - destruct vs as [|v vs]; [rewrite slots_cons_slot in H; discriminate|].
+    rewrite slots_cons_slot in H. cbn [length] in H. cbn [sv filter is_slot map e_def map2]. rewrite IH by lia. f_equal.
+    destruct (d =? 0) eqn:Ed; cbn [andb]; [|exact Ed]. destruct v; cbn [negb]; [exact Ed|apply N.eqb_neq; exact Hnl].
+  - rewrite slots_cons_spec in H. cbn [sv filter is_slot]. apply IH. exact H.
+Qed.
+
+Lemma info_wf_of_spec es info :
+  slots es = length info ->
+  forallb (fun '(m, (_, len)) => m || (len =? 0)) (combine (slot_bits es) info) = true ->
+  Forall (fun x : bool * N => fst x = false -> snd x = 0) info ->
+  Forall info_wf (slot_pairs es info).
+Proof.
+  unfold slot_bits. revert info. induction es as [|[r d|r d] t IH]; intros info Hsl Hf Hv.
+  - constructor.
+  - destruct info as [|[v len] info']; [constructor|]. rewrite slots_cons_slot in Hsl. cbn [length] in Hsl.
+    cbn [filter is_slot map e_def combine forallb] in Hf. apply andb_true_iff in Hf as [Hf1 Hf2].
+    inversion Hv as [|? ? Hv1 Hv']; subst. cbn [slot_pairs]. constructor; [|apply IH; [lia|exact Hf2|exact Hv']].
+    cbn [info_wf fst snd] in *. split; [|exact Hv1].
+    intros Hd. apply N.eqb_neq in Hd. rewrite Hd in Hf1. cbn [orb] in Hf1. apply N.eqb_eq. exact Hf1.
+  - rewrite slots_cons_spec in Hsl. cbn [filter is_slot slot_pairs]. apply IH; assumption.
+Qed.
+
+Lemma list_info_valid_len offs v : Forall (fun x : bool * N => fst x = false -> snd x = 0) (list_info offs v).
+Proof.
+  unfold list_info. destruct v as [vs|].
+  - generalize (windows_len offs). induction vs as [|b t IH]; intros [|l lens]; cbn [map2]; try constructor; [|apply IH].
+    cbn. intros ->. reflexivity.
+  - apply Forall_forall. intros x Hx. apply in_map_iff in Hx as (l & <- & _). cbn. discriminate.
+Qed.
+
+Lemma no_av_mrc ms : existsb (fun m => meaning_eqb m AllValidList) ms = false -> mrc ms = mlists ms.
+Proof.
+  induction ms as [|m t IH]; cbn [existsb mrc mlists]; [reflexivity|]. intros H. apply orb_false_iff in H as [H1 H2].
+  rewrite (IH H2). destruct m; cbn in *; try discriminate; reflexivity.
+Qed.
+
+Lemma a_layers_cons r rs st : a_layers (r :: rs) st = a_layers rs (a_layer r st).
+Proof. reflexivity. Qed.
+
+Lemma a_layers_mono rs : Forall (fun r => match r with RFsl _ _ _ => False | _ => True end) rs ->
+  forall st, (length (st_es st) <= length (st_es (a_layers rs st)))%nat.
+Proof.
+  induction 1 as [|r rs Hr _ IH]; intros st; [cbn; lia|].
+  rewrite a_layers_cons. etransitivity; [|apply IH].
+  destruct st as [[[es cr] cd] ms]. destruct r as [o v he n sp | [vs|] n | v dim n]; [| | |contradiction]; cbn [a_layer a_validity st_es].
+  - destruct (is_some v), he; cbn [st_es]; (etransitivity; [|apply so_length_ge]); destruct v; rewrite ?sv_length; lia.
+  - rewrite sv_length. lia.
+  - lia.
+Qed.
+
+Definition sumr (l : list nat) : nat := fold_right Nat.add O l.
+Lemma sumnat_sumr l : sumnat l = sumr l.
+Proof.
+  unfold sumnat, sumr. rewrite <- fold_left_rev_right.
+  assert (H : forall l a, fold_right (fun y x => (x + y)%nat) a l = (a + fold_right Nat.add O l)%nat).
+  { induction l0 as [|x t IH]; intros a; cbn; [lia|]. rewrite IH. lia. }
+  rewrite H. cbn. induction l as [|x t IH]; [reflexivity|]. cbn [rev]. 
+  assert (H2 : forall l1 l2, fold_right Nat.add O (l1 ++ l2) = (fold_right Nat.add O l1 + fold_right Nat.add O l2)%nat).
+  { induction l1; intros; cbn; [reflexivity|]. rewrite IHl1. lia. }
+  rewrite H2, IH. cbn. lia.
+Qed.
+
+Lemma info_all_true_no_empty info :
+  Forall (fun x : bool * N => fst x = true) info -> existsb info_empty info = false ->
+  filter info_special info = [] /\ Forall (fun l => 0 < l) (map snd info).
+Proof.
+  induction info as [|[b l] t IH]; intros Hall He; [split; constructor|].
+  inversion Hall as [|? ? Hb Hall']; subst. cbn in Hb. subst b. cbn [existsb info_empty andb] in He. apply orb_false_iff in He as [Hl Ht].
+  destruct (IH Hall' Ht) as [IH1 IH2]. cbn [filter info_special negb orb map snd]. rewrite Hl, IH1. split; [reflexivity|].
+  constructor; [apply N.eqb_neq in Hl; lia|exact IH2].
+Qed.
+Lemma list_info_none_true offs : Forall (fun x : bool * N => fst x = true) (list_info offs None).
+Proof. unfold list_info. apply Forall_forall. intros x Hx. apply in_map_iff in Hx as (l & <- & _). reflexivity. Qed.
+
+Lemma no_masked_slots es : forall info,
+  Forall info_wf (slot_pairs es info) -> Forall (fun x : bool * N => fst x = true) info ->
+  existsb info_empty info = false -> slots es = length info ->
+  Forall (fun e => match e with Slot _ d => d = 0 | _ => True end) es.
+Proof.
+  induction es as [|[r d|r d] t IH]; intros info Hwf Hall He Hsl; [constructor| |].
+  - destruct info as [|[b l] info']; [rewrite slots_cons_slot in Hsl; discriminate|].
+    rewrite slots_cons_slot in Hsl. cbn [length] in Hsl.
+    cbn [slot_pairs] in Hwf. inversion Hwf as [|? ? Hw Hwf']; subst. inversion Hall as [|? ? Hb Hall']; subst. cbn in Hb. subst b.
+    cbn [existsb info_empty andb] in He. apply orb_false_iff in He as [Hl Ht].
+    constructor; [|apply (IH info'); [exact Hwf'|exact Hall'|exact Ht|lia]].
+    cbn [info_wf] in Hw. destruct Hw as [Hw _]. destruct (N.eq_dec d 0) as [E|E]; [exact E|]. specialize (Hw E). subst l. discriminate.
+  - rewrite slots_cons_spec in Hsl. cbn [slot_pairs] in Hwf. constructor; [exact I|apply (IH info); assumption].
+Qed.
+
+Lemma glue_offsets hr hd total offs v es cr cd ms cl sp inner :
+  let r := raw_of_call (COffsets offs v) in
+  let info := list_info offs v in
+  let m := cmeaning (COffsets offs v) in
+  let items := N.to_nat (last (prefix_sums 0 (map snd info)) 0) in
+  let spn := length (filter info_special info) in
+  length offs = S (slots es) ->
+  match v with Some vs => length vs = slots es | None => True end ->
+  forallb (fun '(m, (_, len)) => m || (len =? 0)) (combine (slot_bits es) info) = true ->
+  cd = num_def_levels m + mlev inner -> cd <= SPECIAL_THRESHOLD ->
+  (0 < cd -> hd = true) -> hr = true ->
+  match v with Some _ => (cl = 0 \/ cl = length info + sp)%nat | None => True end ->
+  specs es = sp -> (hd = false -> Forall plain es) ->
+  (m = AllValidList -> mlev inner = 0) ->
+  (1 <= length es)%nat -> (length es <= total)%nat ->
+  (length (st_es (a_layer r (es, cr, cd, ms))) <= total)%nat ->
+  layer_pre hr hd total r es cr cd cl /\ ul_pre hr hd r inner es cd /\
+  a_out r es cd = (option_map (fun _ => map2 andb (slot_bits es) (map fst info)) v, Some (prefix_sums 0 (map snd info))) /\
+  slot_bits (st_es (a_layer r (es, cr, cd, ms))) = repeat true items /\
+  specs (st_es (a_layer r (es, cr, cd, ms))) = (sp + spn)%nat /\
+  (hd = false -> Forall plain (st_es (a_layer r (es, cr, cd, ms)))) /\
+  length (st_es (a_layer r (es, cr, cd, ms))) = (items + sp + spn)%nat.
+Proof.
+  intros r info m items spn Hol Hvl Hmasked Hcd HcdT Hhd Hhr Hbk Hsp Hplain HK3 H1 Hle Htot.
+  assert (Hil : length info = slots es) by (apply list_info_length; assumption).
+  remember (existsb info_empty info) as he eqn:Ehe.
+  set (norm := prefix_sums 0 (map snd info)).
+  assert (Er : r = ROffsets norm v he (length norm - 1) spn) by (subst he; reflexivity).
+  assert (Hlens : windows_len norm = map snd info) by apply windows_prefix_sums.
+  assert (Em : m = fst (fst (list_levels v he cd))).
+  { unfold list_levels. subst m he. cbn [cmeaning raw_of_call lm]. fold info. destruct (is_some v), (existsb info_empty info); reflexivity. }
+  clearbody m r.
+  destruct (list_levels v he cd) as [[m0 nl] el] eqn:Elv. cbn [fst] in Em. subst m0.
+  (* facts about the levels *)
+  assert (Hlv : (he = true -> 1 <= el) /\ (is_some v = true -> nl <> 0 /\ nl <= SPECIAL_THRESHOLD /\ hd = true) /\
+                (m = AllValidList <-> (is_some v = false /\ he = false)) /\ (hd = false -> is_some v = false /\ he = false)).
+  { unfold list_levels in Elv. destruct (is_some v) eqn:Ev, he eqn:Eh; inversion Elv as [[E1 E2 E3]]; clear Elv;
+      rewrite <- E1 in Hcd; cbn [num_def_levels] in Hcd.
+    - assert (hd = true) by (apply Hhd; lia). repeat split; intros; try discriminate; try lia; try assumption; try congruence;
+        try (match goal with H : _ /\ _ |- _ => destruct H; discriminate end).
+    - assert (hd = true) by (apply Hhd; lia). repeat split; intros; try discriminate; try lia; try assumption; try congruence;
+        try (match goal with H : _ /\ _ |- _ => destruct H; discriminate end).
+    - assert (hd = true) by (apply Hhd; lia). repeat split; intros; try discriminate; try lia; try assumption; try congruence;
+        try (match goal with H : _ /\ _ |- _ => destruct H; discriminate end).
+    - repeat split; intros; try discriminate; try lia; try reflexivity. }
+  destruct Hlv as (Hel & Hnl & Hav & Hnodef).
+  set (nl' := if is_some v then nl else 1).
+  assert (Hnl' : nl' <> 0) by (subst nl'; destruct (is_some v); [apply Hnl; reflexivity|lia]).
+  assert (Hwl : length (windows_len offs) = slots es) by (rewrite windows_len_length, Hol; lia).
+  assert (Hes1 : (match v with Some vs => sv vs nl es | None => es end) = sv (map fst info) nl' es).
+  { subst nl' info. unfold list_info. destruct v as [vs|]; cbn [is_some].
+    - rewrite map_fst_map2; [reflexivity|lia].
+    - rewrite sv_true; [reflexivity|]. apply Forall_forall. intros x Hx. apply in_map_iff in Hx as ([b l] & <- & Hx). apply in_map_iff in Hx as (l' & E & _). inversion E. reflexivity. }
+  assert (Hwf : Forall info_wf (slot_pairs es info)).
+  { apply info_wf_of_spec; [lia|exact Hmasked|apply list_info_valid_len]. }
+  destruct (list_step_facts cr nl' el Hnl' es info (eq_sym Hil) Hwf) as (F1 & F2 & F3 & F4 & F5).
+  { intros H. apply Hel. congruence. }
+  cbn zeta in F1, F2, F3, F4, F5. rewrite <- Hes1 in F1, F2, F3, F4, F5.
+  set (es1 := match v with Some vs => sv vs nl es | None => es end) in *.
+  assert (Ees2 : st_es (a_layer r (es, cr, cd, ms)) = so (map snd info) cr el es1).
+  { rewrite Er. cbn [a_layer st_es]. unfold list_levels in Elv. fold norm. rewrite Hlens. subst es1.
+    destruct (is_some v), he; inversion Elv; subst; reflexivity. }
+  rewrite Ees2 in *.
+  assert (Hitems : N.to_nat (sumN' (map snd info)) = items).
+  { subst items. rewrite last_prefix_sums, N.add_0_l. reflexivity. }
+  rewrite Hitems in F1.
+  assert (Hlen2 : length (so (map snd info) cr el es1) = (items + sp + spn)%nat).
+  { assert (Hs2 : slots (so (map snd info) cr el es1) = items) by (rewrite <- slot_bits_length, F1, repeat_length; reflexivity).
+    rewrite <- (slots_specs_length (so (map snd info) cr el es1)), F2, Hsp, Hs2. subst spn. lia. }
+  assert (Hnlen : (length norm - 1 = slots es)%nat) by (subst norm; rewrite prefix_sums_length, map_length; lia).
+  repeat split; try assumption.
+  - (* layer_pre *)
+    rewrite Er. cbn [layer_pre]. rewrite Elv. fold norm. rewrite Hlens. fold es1.
+    split; [exact Hhr|]. split; [rewrite map_length; lia|]. split; [rewrite map_length; lia|]. split; [exact H1|]. split; [exact Hle|].
+    split.
+    { destruct v as [vs|]; [|exact I]. destruct (Hnl eq_refl) as (Hn1 & Hn2 & Hn3). repeat split; try assumption; [lia|].
+      destruct Hbk as [Hbk|Hbk]; [left; exact Hbk|right]. lia. }
+    split; [|split; [exact Htot | rewrite F2, Hsp; reflexivity]].
+    destruct hd; [exact F3|].
+    destruct (Hnodef eq_refl) as [Hv0 Hhe0].
+    assert (Hvn : v = None) by (destruct v; [discriminate|reflexivity]).
+    assert (Hnospec : filter info_special info = [] /\ Forall (fun l => 0 < l) (map snd info)).
+    { apply info_all_true_no_empty; [subst info; rewrite Hvn; apply list_info_none_true|congruence]. }
+    destruct Hnospec as [Hns Hpos]. split; [exact Hpos|]. subst spn. rewrite Hns. reflexivity.
+  - (* ul_pre *)
+    rewrite Er. cbn [ul_pre]. rewrite Elv. fold norm. rewrite Hlens. fold es1.
+    split; [exact Hhr|]. split; [rewrite map_length; lia|]. split; [exact F3|]. split; [|split].
+    + intros Hmav. split; [apply HK3; exact Hmav|]. apply Hav in Hmav as [Hv0 Hhe0].
+      (* a slot behind a null ancestor would be an empty valid list *)
+      assert (Hvn : v = None) by (destruct v; [discriminate|reflexivity]).
+      apply (no_masked_slots es info); [exact Hwf|subst info; rewrite Hvn; apply list_info_none_true|congruence|lia].
+    + destruct v; [apply Hnl; reflexivity|exact I].
+    + intros Hhd0. destruct (Hnodef Hhd0) as [Hv0 Hhe0]. split; [apply Hav; split; assumption|]. split; [|apply Hplain; exact Hhd0].
+      assert (Hvn : v = None) by (destruct v; [discriminate|reflexivity]).
+      apply info_all_true_no_empty; [subst info; rewrite Hvn; apply list_info_none_true|congruence].
+  - (* a_out *)
+    rewrite Er. cbn [a_out]. rewrite Elv. fold norm. rewrite Hlens. fold es1. rewrite F4. cbn [fst snd]. rewrite <- app_removelast_last.
+    2:{ rewrite (prefix_sums_cons 0). discriminate. }
+    f_equal. destruct v; [cbn [option_map]; rewrite F5; reflexivity|reflexivity].
+  - rewrite F2, Hsp. reflexivity.
+  - intros Hhd0. destruct (Hnodef Hhd0) as [Hv0 Hhe0].
+    assert (Hvn : v = None) by (destruct v; [discriminate|reflexivity]).
+    subst es1. rewrite Hvn. apply so_plain; [apply Hplain; exact Hhd0| |].
+    + destruct (plain_specs es (Hplain Hhd0)) as [_ H]. rewrite map_length. lia.
+    + apply info_all_true_no_empty; [subst info; rewrite Hvn; apply list_info_none_true|congruence].
+Qed.
+
+
+Lemma no_fsl_raws cs : no_fsl cs = true ->
+  Forall (fun r => match r with RFsl _ _ _ => False | _ => True end) (map raw_of_call cs).
+Proof.
+  unfold no_fsl. induction cs as [|c t IH]; intros H; [constructor|].
+  cbn [existsb] in H. apply negb_true_iff, orb_false_iff in H as [Hc Ht].
+  cbn [map]. constructor; [destruct c; cbn in *; try exact I; discriminate|apply IH; rewrite Ht; reflexivity].
+Qed.
+
+Lemma existsb_map_meaning (cs : list call) :
+  existsb (fun m => meaning_eqb m AllValidList) (map cmeaning cs) = existsb (fun c' => meaning_eqb (cmeaning c') AllValidList) cs.
+Proof. induction cs as [|c t IH]; [reflexivity|]. cbn [map existsb]. rewrite IH. reflexivity. Qed.
+
+Lemma glue hr hd total : forall cs mask es cr cd ms cl sp outside outs clf,
+  spec_layers mask cs = Some outs -> no_fsl cs = true ->
+  slot_bits es = mask -> specs es = sp -> (outside = false -> sp = O) -> (hd = false -> Forall plain es) ->
+  cd = mlev (map cmeaning cs) -> cd <= SPECIAL_THRESHOLD ->
+  (0 < mlev (map cmeaning cs) -> hd = true) -> (0 < mlists (map cmeaning cs) -> hr = true) ->
+  bk_ok cs cl sp = Some clf ->
+  Known_C27_allvalid_list_over_nullable_items cs = false -> k6 outside cs = false ->
+  (1 <= length es)%nat ->
+  (length (st_es (a_layers (map raw_of_call cs) (es, cr, cd, ms))) <= total)%nat ->
+  layers_pre hr hd total (map raw_of_call cs) (es, cr, cd, ms) cl /\
+  uls_pre hr hd (map raw_of_call cs) (es, cr, cd, ms) /\
+  a_outs (map raw_of_call cs) (es, cr, cd, ms) = outs /\
+  layers_len (map raw_of_call cs) (es, cr, cd, ms) cl = clf /\
+  slots (st_es (a_layers (map raw_of_call cs) (es, cr, cd, ms))) = spec_items (length mask) cs /\
+  specs (st_es (a_layers (map raw_of_call cs) (es, cr, cd, ms))) = (sp + sumr (map raw_num_specials (map raw_of_call cs)))%nat.
+Proof.
+  induction cs as [|c cs IH]; intros mask es cr cd ms cl sp outside outs clf Hspec Hnf Hmask Hsp Hout Hplain Hcd HcdT Hhd Hhr Hbk HK3 HK6 H1 Htot.
+  - cbn [map layers_pre uls_pre a_outs layers_len a_layers fold_left st_es spec_items sumr fold_right] in *.
+    inversion Hspec; inversion Hbk; subst. rewrite slot_bits_length. repeat split; try reflexivity. lia.
+  - subst sp. pose proof (no_fsl_raws _ Hnf) as Hraws. cbn [map] in Hraws. pose proof (Forall_inv_tail Hraws) as Hraws'.
+    unfold no_fsl in Hnf. cbn [existsb] in Hnf. apply negb_true_iff, orb_false_iff in Hnf. destruct Hnf as [Hc Hnf].
+    assert (Hnf' : no_fsl cs = true) by (unfold no_fsl; rewrite Hnf; reflexivity).
+    cbn [map mlev mlists] in Hcd, Hhd, Hhr.
+    cbn [Known_C27_allvalid_list_over_nullable_items] in HK3. apply orb_false_iff in HK3 as [HK3a HK3].
+    cbn [k6] in HK6. apply orb_false_iff in HK6 as [HK6a HK6].
+    cbn [map] in Htot |- *. rewrite a_layers_cons in Htot |- *.
+    pose proof (a_layers_mono _ Hraws' (a_layer (raw_of_call c) (es, cr, cd, ms))) as Hmono.
+    assert (Hmask_len : length mask = slots es) by (rewrite <- Hmask; apply slot_bits_length).
+    pose proof (slots_specs_length es) as Hss.
+    destruct c as [v | n | offs v | v dim n]; cbn [is_fsl] in Hc; [| | |discriminate]; cbn [spec_layers] in Hspec.
+    + (* add_validity_bitmap *)
+      destruct (Nat.eqb (length v) (length mask)) eqn:El; [|discriminate]. apply Nat.eqb_eq in El.
+      destruct (spec_layers (map2 andb mask v) cs) as [outs'|] eqn:Es; [|discriminate].
+      cbn [option_map] in Hspec. injection Hspec as Hspec. subst outs.
+      cbn [bk_ok] in Hbk. destruct (Nat.eqb cl 0 || Nat.eqb cl (length v + specs es)) eqn:Ebk; [|discriminate].
+      cbn [cmeaning raw_of_call lm num_def_levels m_is_list] in Hcd, Hhd, Hhr.
+      assert (Hhd1 : hd = true) by (apply Hhd; lia).
+      assert (Hcdnz : mlev (map cmeaning cs) + 1 <> 0) by lia.
+      cbn [raw_of_call a_layer a_validity] in Htot, Hmono |- *. cbn [st_es] in Hmono.
+      rewrite sv_length in Hmono.
+      assert (A1 : slot_bits (sv v cd es) = map2 andb mask v) by (rewrite sv_bits; [rewrite Hmask; reflexivity|lia|lia]).
+      assert (A2 : specs (sv v cd es) = specs es) by apply sv_specs.
+      assert (A4 : hd = false -> Forall plain (sv v cd es)) by (intros; subst hd; discriminate).
+      assert (A5 : cd - 1 = mlev (map cmeaning cs)) by lia.
+      assert (A6 : cd - 1 <= SPECIAL_THRESHOLD) by lia.
+      assert (A7 : 0 < mlev (map cmeaning cs) -> hd = true) by (intros; exact Hhd1).
+      assert (A8 : 0 < mlists (map cmeaning cs) -> hr = true) by (intros H; apply Hhr; lia).
+      assert (A12 : (1 <= length (sv v cd es))%nat) by (rewrite sv_length; exact H1).
+      cbn [c_is_list] in HK6. rewrite orb_false_r in HK6.
+      destruct (IH (map2 andb mask v) (sv v cd es) cr (cd - 1) (ms ++ [NullableItem]) (length v) (specs es) outside outs' clf
+                   Es Hnf' A1 A2 Hout A4 A5 A6 A7 A8 Hbk HK3 HK6 A12 Htot) as (I1 & I2 & I3 & I4 & I5 & I6).
+      cbn [layers_pre uls_pre a_outs layers_len layer_len]. cbn [a_layer a_validity layer_pre ul_pre a_out].
+      rewrite map2_length in I5 by lia.
+      split; [split; [|exact I1]|].
+      { split; [exact Hhd1|]. split; [lia|]. split; [exact HcdT|]. split; [|lia].
+        apply orb_true_iff in Ebk. destruct Ebk as [E|E]; [left|right]; apply Nat.eqb_eq in E; exact E. }
+      split; [split; [|exact I2]|].
+      { split; [exact Hhd1|].
+        apply andb_false_iff in HK6a. destruct HK6a as [E|E]; [left; apply Hout; exact E|right].
+        rewrite map_map. change (map (fun x => lm (raw_of_call x)) cs) with (map cmeaning cs).
+        apply no_av_mrc. rewrite existsb_map_meaning. exact E. }
+      split; [rewrite A1, I3; reflexivity|]. split; [exact I4|]. split.
+      { rewrite I5. cbn [spec_items]. destruct cs; [cbn [spec_items]; lia|reflexivity]. }
+      rewrite I6. unfold sumr. cbn [map raw_num_specials raw_of_call fold_right]. lia.
+    + (* add_no_null *)
+      destruct (Nat.eqb n (length mask)) eqn:El; [|discriminate]. apply Nat.eqb_eq in El.
+      destruct (spec_layers mask cs) as [outs'|] eqn:Es; [|discriminate].
+      cbn [option_map] in Hspec. injection Hspec as Hspec. subst outs.
+      cbn [bk_ok] in Hbk.
+      cbn [cmeaning raw_of_call lm num_def_levels m_is_list] in Hcd, Hhd, Hhr.
+      cbn [raw_of_call a_layer a_validity] in Htot, Hmono |- *.
+      cbn [c_is_list] in HK6. rewrite orb_false_r in HK6.
+      assert (A5 : cd = mlev (map cmeaning cs)) by lia.
+      assert (A7 : 0 < mlev (map cmeaning cs) -> hd = true) by (intros H; apply Hhd; lia).
+      assert (A8 : 0 < mlists (map cmeaning cs) -> hr = true) by (intros H; apply Hhr; lia).
+      destruct (IH mask es cr cd (ms ++ [AllValidItem]) cl (specs es) outside outs' clf
+                   Es Hnf' Hmask eq_refl Hout Hplain A5 HcdT A7 A8 Hbk HK3 HK6 H1 Htot) as (I1 & I2 & I3 & I4 & I5 & I6).
+      cbn [layers_pre uls_pre a_outs layers_len layer_len]. cbn [a_layer a_validity layer_pre ul_pre a_out].
+      split; [split; [exact I|exact I1]|]. split; [split; [exact I|exact I2]|].
+      split; [rewrite I3; reflexivity|]. split; [exact I4|]. split.
+      { rewrite I5. cbn [spec_items]. destruct cs; [cbn [spec_items]; lia|reflexivity]. }
+      rewrite I6. unfold sumr. cbn [map raw_num_specials raw_of_call fold_right]. lia.
+    + (* add_offsets *)
+      set (info := list_info offs v) in *.
+      destruct (sorted offs && Nat.eqb (length offs) (S (length mask))
+                && match v with Some vs => Nat.eqb (length vs) (length mask) | None => true end
+                && forallb (fun '(m, (_, len)) => m || (len =? 0)) (combine mask info)) eqn:Ec; [|discriminate].
+      apply andb_true_iff in Ec as [Ec Hmasked]. apply andb_true_iff in Ec as [Ec Hvl]. apply andb_true_iff in Ec as [Hsorted Hol].
+      apply Nat.eqb_eq in Hol.
+      set (items := N.to_nat (last (prefix_sums 0 (map snd info)) 0)) in *.
+      destruct (spec_layers (repeat true items) cs) as [outs'|] eqn:Es; [|discriminate].
+      cbn [option_map] in Hspec. injection Hspec as Hspec. subst outs.
+      cbn [bk_ok] in Hbk. fold info in Hbk. fold items in Hbk.
+      set (spn := length (filter info_special info)) in *.
+      destruct (match v with Some _ => Nat.eqb cl 0 || Nat.eqb cl (length info + specs es) | None => true end) eqn:Ebk; [|discriminate].
+      set (m := cmeaning (COffsets offs v)) in *.
+      assert (Hmlist : m_is_list m = true) by (subst m; cbn [cmeaning raw_of_call lm]; destruct (is_some v), (existsb info_empty (list_info offs v)); reflexivity).
+      rewrite Hmlist in Hhr.
+      assert (Hhr1 : hr = true) by (apply Hhr; lia).
+      cbn [c_is_list] in HK6. rewrite orb_true_r in HK6.
+      destruct (a_layer_shape (raw_of_call (COffsets offs v)) es cr cd ms) as (es' & Est). fold (cmeaning (COffsets offs v)) in Est. fold m in Est.
+      rewrite Hmlist in Est.
+      assert (Hes' : st_es (a_layer (raw_of_call (COffsets offs v)) (es, cr, cd, ms)) = es') by (rewrite Est; reflexivity).
+      rewrite Est in Htot, Hmono. cbn [st_es] in Hmono.
+      assert (Htot1 : (length (st_es (a_layer (raw_of_call (COffsets offs v)) (es, cr, cd, ms))) <= total)%nat).
+      { rewrite Hes'. etransitivity; [|exact Htot]. etransitivity; [|apply (a_layers_mono _ Hraws')]. cbn [st_es]. lia. }
+      assert (Hle : (length es <= total)%nat).
+      { pose proof (a_layers_mono _ Hraws (es, cr, cd, ms)) as H. cbn [st_es] in H. rewrite a_layers_cons, Est in H. lia. }
+      destruct (glue_offsets hr hd total offs v es cr cd ms cl (specs es) (map cmeaning cs)) as (G1 & G2 & G3 & G4 & G5 & G6 & G7); try assumption; try reflexivity.
+      { rewrite Hol, Hmask_len. reflexivity. }
+      { destruct v; [apply Nat.eqb_eq in Hvl; lia|exact I]. }
+      { rewrite Hmask. exact Hmasked. }
+      { intros H. apply Hhd. lia. }
+      { destruct v; [|exact I]. apply orb_true_iff in Ebk. destruct Ebk as [E|E]; [left|right]; apply Nat.eqb_eq in E; exact E. }
+      { intros Hmav. fold m in Hmav. rewrite Hmav in HK3a. cbn [meaning_eqb andb] in HK3a. apply N.ltb_ge in HK3a. lia. }
+      fold info items spn in G3, G4, G5, G7. rewrite Hes' in G4, G5, G6, G7.
+      assert (A5 : cd - num_def_levels m = mlev (map cmeaning cs)) by lia.
+      assert (A6 : cd - num_def_levels m <= SPECIAL_THRESHOLD) by lia.
+      assert (A7 : 0 < mlev (map cmeaning cs) -> hd = true) by (intros H; apply Hhd; lia).
+      assert (A8 : 0 < mlists (map cmeaning cs) -> hr = true) by (intros; exact Hhr1).
+      assert (A3 : true = false -> (specs es + spn)%nat = O) by discriminate.
+      assert (Hge : (length es <= length es')%nat).
+      { pose proof (a_layers_mono [raw_of_call (COffsets offs v)] (Forall_cons _ (Forall_inv Hraws) (Forall_nil _)) (es, cr, cd, ms)) as H.
+        unfold a_layers in H. cbn [fold_left] in H. rewrite Est in H. exact H. }
+      assert (A12 : (1 <= length es')%nat) by lia.
+      destruct (IH (repeat true items) es' (cr - 1) (cd - num_def_levels m) (ms ++ [m]) (items + specs es + spn)%nat (specs es + spn)%nat true outs' clf
+                   Es Hnf' G4 G5 A3 G6 A5 A6 A7 A8 Hbk HK3 HK6 A12 Htot) as (I1 & I2 & I3 & I4 & I5 & I6).
+      cbn [layers_pre uls_pre a_outs layers_len]. rewrite Est.
+      assert (Hll : layer_len (raw_of_call (COffsets offs v)) (es, cr, cd, ms) cl = (items + specs es + spn)%nat).
+      { transitivity (length (st_es (a_layer (raw_of_call (COffsets offs v)) (es, cr, cd, ms)))).
+        - cbn [raw_of_call layer_len]. destruct (a_layer _ (es, cr, cd, ms)) as [[[? ?] ?] ?]. reflexivity.
+        - rewrite Hes'. exact G7. }
+      rewrite Hll.
+      split; [split; [exact G1|exact I1]|]. split; [split; [|exact I2]|].
+      { rewrite map_map. change (map (fun x => lm (raw_of_call x)) cs) with (map cmeaning cs). exact G2. }
+      split; [rewrite G3, I3, Hmask; reflexivity|]. split; [exact I4|]. split.
+      { rewrite I5. cbn [spec_items]. fold info. fold items. rewrite repeat_length. destruct cs; reflexivity. }
+      rewrite I6. unfold sumr. cbn [map fold_right]. cbn [raw_of_call raw_num_specials]. fold info. fold spn. lia.
+Qed.
+
+(* ---------------------------------------------------------------------------------------------- *)
+(* 4.5 final assembly                                                                              *)
+
+Lemma sumN_fold l a : fold_left N.add l a = a + fold_right N.add 0 l.
+Proof. revert a; induction l as [|x t IH]; intros a; cbn; [lia|]. rewrite IH. lia. Qed.
+
+Lemma sumN_max_def rs : sumN (map raw_max_def rs) = mlev (map lm rs).
+Proof.
+  unfold sumN. rewrite sumN_fold, N.add_0_l. induction rs as [|r t IH]; [reflexivity|].
+  cbn [map fold_right mlev]. rewrite IH. f_equal.
+  destruct r as [o v he n sp | [v|] n | [v|] dim n]; cbn [raw_max_def lm]; try reflexivity.
+  destruct v, he; reflexivity.
+Qed.
+Lemma sumN_max_rep rs : sumN (map raw_max_rep rs) = mlists (map lm rs).
+Proof.
+  unfold sumN. rewrite sumN_fold, N.add_0_l. induction rs as [|r t IH]; [reflexivity|].
+  cbn [map fold_right mlists]. rewrite IH. f_equal.
+  destruct r as [o v he n sp | [v|] n | [v|] dim n]; cbn [raw_max_rep lm m_is_list]; try reflexivity.
+  destruct (is_some v), he; reflexivity.
+Qed.
+
+Lemma a_layers_ms rs : forall es cr cd ms,
+  exists es' cr' cd', a_layers rs (es, cr, cd, ms) = (es', cr', cd', ms ++ map lm rs).
+Proof.
+  induction rs as [|r t IH]; intros es cr cd ms.
+  - exists es, cr, cd. cbn. rewrite app_nil_r. reflexivity.
+  - rewrite a_layers_cons. destruct (a_layer_shape r es cr cd ms) as (es1 & E). rewrite E.
+    destruct (IH es1 (cr - (if m_is_list (lm r) then 1 else 0)) (cd - num_def_levels (lm r)) (ms ++ [lm r])) as (es' & cr' & cd' & E').
+    exists es', cr', cd'. rewrite E'. cbn [map]. rewrite <- app_assoc. reflexivity.
+Qed.
+
+Lemma lkind_raw_of_call c : lkind (raw_of_call c) = call_kind c.
+Proof. destruct c; reflexivity. Qed.
+
+Definition ends_with_leaf (cs : list call) : bool :=
+  match rev cs with CValidity _ :: _ | CNoNull _ :: _ => true | _ => false end.
+
+Lemma last_leaf_values cs n c rest :
+  rev cs = c :: rest -> match c with CValidity _ | CNoNull _ => True | _ => False end ->
+  raw_num_values (raw_of_call c) = spec_items n cs.
+Proof.
+  intros Hrev Hc. assert (E : cs = rev rest ++ [c]) by (rewrite <- (rev_involutive cs), Hrev; reflexivity).
+  subst cs. clear Hrev. revert n. induction (rev rest) as [|x t IH]; intros n.
+  - destruct c; try contradiction; reflexivity.
+  - cbn [app]. destruct x; cbn [spec_items]; apply IH.
+Qed.
+
+Lemma normalize_enc es : Forall ent_enc_ok es -> normalize_specials (map enc_def es) = map e_def es.
+Proof.
+  unfold normalize_specials. induction 1 as [|e t He _ IH]; [reflexivity|].
+  cbn [map]. rewrite IH. f_equal. rewrite (enc_special e He). destruct e as [r d|r d]; cbn [is_slot negb enc_def e_def]; [reflexivity|lia].
+Qed.
+
+Lemma reld0_self es : Forall2 (reld 0) (map e_def es) es.
+Proof.
+  induction es as [|e t IH]; [constructor|]. cbn [map]. constructor; [|exact IH].
+  destruct e as [r d|r d]; cbn [reld e_def]; [|reflexivity]. destruct (d =? 0) eqn:E; [apply N.eqb_eq in E; lia|reflexivity].
+Qed.
+
+Lemma ctx_new_cinv total rows max_rep max_def : (rows <= total)%nat ->
+  cinv (0 <? max_rep) (0 <? max_def) total (ctx_new total max_rep max_def) (repeat (Slot 0 0) rows) max_rep max_def [] O.
+Proof.
+  intros Hle. unfold ctx_new.
+  assert (Hz1 : zeros total = map e_rep (repeat (Slot 0 0) rows) ++ zeros (total - rows)).
+  { unfold zeros. rewrite map_repeat'. cbn [e_rep]. rewrite <- repeat_app. replace (rows + (total - rows))%nat with total by lia. reflexivity. }
+  assert (Hz2 : zeros total = map enc_def (repeat (Slot 0 0) rows) ++ zeros (total - rows)).
+  { unfold zeros. rewrite map_repeat'. cbn [enc_def]. rewrite <- repeat_app. replace (rows + (total - rows))%nat with total by lia. reflexivity. }
+  assert (Hzl : length (zeros total) = total) by apply repeat_length.
+  assert (Hspecs : specs (repeat (Slot 0 0) rows) = O).
+  { clear. induction rows as [|k IH]; [reflexivity|]. cbn [repeat]. rewrite specs_cons_slot. exact IH. }
+  constructor; cbn [c_rep c_srep c_def c_sdef c_specials c_len c_cur_rep c_cur_def c_meaning]; try reflexivity.
+  - destruct (0 <? max_rep); [|split; reflexivity]. exists (zeros (total - rows)). repeat split; assumption.
+  - destruct (0 <? max_def).
+    + exists (zeros (total - rows)). repeat split; assumption.
+    + repeat split. apply Forall_forall. intros e He. apply repeat_spec in He. subst e. reflexivity.
+  - symmetry. exact Hspecs.
+  - apply Forall_forall. intros e He. apply repeat_spec in He. subst e. cbn. unfold SPECIAL_THRESHOLD. lia.
+Qed.
+
+Lemma empty_builder_meanings rs :
+  forallb (fun r => match r with RValidity None _ => true | _ => false end) rs = true ->
+  map lm rs = repeat AllValidItem (length rs) /\ map (fun _ : raw => AllValidItem) rs = repeat AllValidItem (length rs).
+Proof.
+  induction rs as [|r t IH]; intros H; [split; reflexivity|].
+  cbn [forallb] in H. apply andb_true_iff in H as [Hr Ht]. destruct (IH Ht) as [I1 I2].
+  destruct r as [| [v|] n |]; try discriminate. cbn [map lm length repeat]. rewrite I1, I2. split; reflexivity.
+Qed.
+Lemma repeat_avi_counts n : mlev (repeat AllValidItem n) = 0 /\ mlists (repeat AllValidItem n) = 0 /\ max_visible_level (repeat AllValidItem n) = None.
+Proof.
+  unfold max_visible_level. induction n as [|k (I1 & I2 & I3)]; [repeat split|]. cbn [repeat mlev mlists num_def_levels m_is_list first_list_pos].
+  rewrite I1, I2. repeat split. destruct (first_list_pos (repeat AllValidItem k)); [discriminate|reflexivity].
+Qed.
+
+(* the declared domain of the round-trip theorem *)
+Definition c27_dom (cs : list call) : bool :=
+  no_fsl cs && ends_with_leaf cs
+  && match cs with c :: _ => Nat.leb 1 (call_slots c) | [] => false end
+  && (mlev (map cmeaning cs) <=? SPECIAL_THRESHOLD).
+
+Lemma rev_last_cons {A} (l : list A) x rest : rev l = x :: rest -> l = rev rest ++ [x].
+Proof. intros H. rewrite <- (rev_involutive l), H. reflexivity. Qed.
+
+Theorem roundtrip_correct cs outs :
+  spec_top cs = Some outs -> c27_dom cs = true ->
+  Known_C27_list_of_nullable_struct_repdef cs = false ->
+  Known_C27_allvalid_list_over_nullable_items cs = false ->
+  Known_C27_allvalid_list_inside_nullable_struct cs = false ->
+  roundtrip cs = Ok (rev outs).
+Proof.
+  intros Hspec Hdom HK12 HK3 HK6.
+  unfold c27_dom in Hdom. apply andb_true_iff in Hdom as [Hdom HT]. apply andb_true_iff in Hdom as [Hdom Hrows].
+  apply andb_true_iff in Hdom as [Hnf Hleaf]. apply N.leb_le in HT.
+  destruct cs as [|c0 cs']; [discriminate|]. apply Nat.leb_le in Hrows.
+  set (cs := c0 :: cs') in *. set (rows := call_slots c0) in *.
+  unfold spec_top in Hspec. fold rows in Hspec. change (spec_layers (repeat true rows) cs = Some outs) in Hspec.
+  set (rs := map raw_of_call cs).
+  set (max_rep := sumN (map raw_max_rep rs)). set (max_def := sumN (map raw_max_def rs)).
+  assert (Hmd : max_def = mlev (map cmeaning cs)) by (unfold max_def, rs; rewrite sumN_max_def, map_map; reflexivity).
+  assert (Hmr : max_rep = mlists (map cmeaning cs)) by (unfold max_rep, rs; rewrite sumN_max_rep, map_map; reflexivity).
+  set (hr := 0 <? max_rep). set (hd := 0 <? max_def).
+  set (es0 := repeat (Slot 0 0) rows).
+  set (st0 := (es0, max_rep, max_def, @nil meaning)).
+  set (es_f := st_es (a_layers rs st0)).
+  set (total := length es_f).
+  (* the bookkeeping class *)
+  unfold Known_C27_list_of_nullable_struct_repdef in HK12.
+  destruct (bk_ok cs 0 0) as [clf|] eqn:Ebk; [|discriminate]. apply Nat.eqb_neq in HK12.
+  (* glue *)
+  assert (Hbits0 : slot_bits es0 = repeat true rows).
+  { subst es0. clear. induction rows as [|k IH]; [reflexivity|]. unfold slot_bits in *. cbn [repeat filter is_slot map e_def]. rewrite IH. reflexivity. }
+  assert (Hspecs0 : specs es0 = O).
+  { subst es0. clear. induction rows as [|k IH]; [reflexivity|]. cbn [repeat]. rewrite specs_cons_slot. exact IH. }
+  assert (Hplain0 : hd = false -> Forall plain es0).
+  { intros _. apply Forall_forall. intros e He. apply repeat_spec in He. subst e. reflexivity. }
+  assert (Hlen0 : length es0 = rows) by apply repeat_length.
+  assert (B1 : false = false -> O = O) by reflexivity.
+  assert (B2 : max_def <= SPECIAL_THRESHOLD) by (rewrite Hmd; exact HT).
+  assert (B3 : 0 < mlev (map cmeaning cs) -> hd = true) by (intros H; subst hd; apply N.ltb_lt; rewrite Hmd; exact H).
+  assert (B4 : 0 < mlists (map cmeaning cs) -> hr = true) by (intros H; subst hr; apply N.ltb_lt; rewrite Hmr; exact H).
+  assert (B5 : (1 <= length es0)%nat) by (rewrite Hlen0; exact Hrows).
+  assert (B6 : (length (st_es (a_layers (map raw_of_call cs) (es0, max_rep, max_def, []))) <= total)%nat) by (subst total es_f st0 rs; lia).
+  destruct (glue hr hd total cs (repeat true rows) es0 max_rep max_def [] O O false outs clf
+                 Hspec Hnf Hbits0 Hspecs0 B1 Hplain0 Hmd B2 B3 B4 Ebk HK3 HK6 B5 B6)
+    as (G1 & G2 & G3 & G4 & G5 & G6).
+  fold rs in G1, G2, G3, G4, G5, G6. fold st0 in G1, G2, G3, G4, G5, G6. fold es_f in G5, G6.
+  rewrite repeat_length in G5.
+  (* builder *)
+  destruct (apply_calls_spec cs (repeat true rows) builder_default [] outs Hspec Hnf (or_introl eq_refl)) as (b & fl & Eb & Hbr & Hbl).
+  cbn [b_repdefs builder_default app] in Hbr. fold rs in Hbr.
+  assert (Hbl' : b_len b = Some (spec_items O cs)) by (rewrite Hbl; reflexivity).
+  (* the last layer is a leaf validity layer *)
+  unfold ends_with_leaf in Hleaf. destruct (rev cs) as [|cl crest] eqn:Erev; [discriminate|].
+  assert (Hlastleaf : match cl with CValidity _ | CNoNull _ => True | _ => False end) by (destruct cl; try discriminate; exact I).
+  assert (Hrevrs : rev rs = raw_of_call cl :: map raw_of_call crest).
+  { subst rs. rewrite <- map_rev, Erev. reflexivity. }
+  assert (Htotal : total = (raw_num_values (raw_of_call cl) + sumnat (map raw_num_specials rs))%nat).
+  { subst total. rewrite <- (slots_specs_length es_f), G5, G6, sumnat_sumr.
+    rewrite (last_leaf_values cs rows cl crest Erev Hlastleaf). lia. }
+  assert (Hrows_total : (rows <= total)%nat).
+  { subst total es_f. pose proof (a_layers_mono rs (no_fsl_raws _ Hnf) st0) as H. cbn [st_es] in H. subst st0. cbn [st_es] in H. lia. }
+  (* serialize *)
+  assert (Hser : serialize_calls [cs] = Ok (a_serialized rs (a_layers rs st0))).
+  { unfold serialize_calls. cbn [build_all]. unfold build_builder. rewrite Eb. cbn [bind].
+    unfold serialize. cbn [forallb]. rewrite andb_true_r.
+    destruct (builder_is_empty b) eqn:Eempty.
+    - (* only add_no_null calls: SerializedRepDefs::empty *)
+      unfold builder_is_empty in Eempty. rewrite Hbr in Eempty |- *.
+      destruct (empty_builder_meanings rs Eempty) as [Em1 Em2].
+      destruct (repeat_avi_counts (length rs)) as (C1 & C2 & C3).
+      destruct (a_layers_ms rs es0 max_rep max_def []) as (es1 & cr1 & cd1 & E1). fold st0 in E1. rewrite E1. cbn [app].
+      unfold a_serialized. fold max_rep max_def.
+      assert (Hmd0 : max_def = 0) by (unfold max_def; rewrite sumN_max_def, Em1; exact C1).
+      assert (Hmr0 : max_rep = 0) by (unfold max_rep; rewrite sumN_max_rep, Em1; exact C2).
+      rewrite Hmd0, Hmr0. change (0 <? 0) with false. cbv iota.
+      unfold serialized_new. rewrite Em1, Em2, rev_repeat, C3. reflexivity.
+    - cbv zeta.
+      assert (Hnorm : Forall raw_norm (b_repdefs b)).
+      { rewrite Hbr. apply Forall_forall. intros r Hr. apply in_map_iff in Hr as (c & <- & _). apply raw_of_call_norm. }
+      rewrite (combined_single b Hnorm). cbn [bind forallb]. rewrite Nat.eqb_refl. cbn [andb assert_ bind].
+      rewrite Hbr, Hrevrs. fold max_rep max_def. rewrite <- Htotal.
+      destruct (record_layers_ok hr hd total rs (ctx_new total max_rep max_def) es0 max_rep max_def [] O
+                  (ctx_new_cinv total rows max_rep max_def Hrows_total) G1) as (c' & Ec' & Hc').
+      rewrite Ec'. cbn [bind]. f_equal.
+      destruct (a_layers rs (es0, max_rep, max_def, [])) as [[[esf crf] cdf] msf] eqn:Eal.
+      fold st0 in Eal. assert (Eesf : esf = es_f) by (subst es_f; rewrite Eal; reflexivity).
+      destruct Hc' as [Hrep Hdef Hsp Hlen Henc Hcr Hcd Hms].
+      unfold ctx_build. rewrite Hlen. fold st0. rewrite G4.
+      replace (Nat.eqb clf 0) with false by (symmetry; apply Nat.eqb_neq; exact HK12).
+      unfold a_serialized. rewrite Eal. fold max_rep max_def. fold hr hd. rewrite Hms.
+      assert (Htl : total = length esf) by (rewrite Eesf; reflexivity).
+      assert (Hpos : (1 <= total)%nat) by lia.
+      f_equal.
+      + (* rep *)
+        destruct hr.
+        * destruct Hrep as (j & Er & Lr & _). assert (j = []).
+          { apply (f_equal (@length N)) in Er. rewrite app_length, map_length, Lr in Er. destruct j; [reflexivity|cbn in Er; lia]. }
+          subst j. rewrite app_nil_r in Er. rewrite Er. destruct (map e_rep esf) eqn:E; [|reflexivity].
+          apply (f_equal (@length N)) in E. rewrite map_length in E. cbn in E. lia.
+        * destruct Hrep as [-> _]. reflexivity.
+      + (* def *)
+        destruct hd.
+        * destruct Hdef as (j & Ed & Ld & _). assert (j = []).
+          { apply (f_equal (@length N)) in Ed. rewrite app_length, map_length, Ld in Ed. destruct j; [reflexivity|cbn in Ed; lia]. }
+          subst j. rewrite app_nil_r in Ed. rewrite Ed, (normalize_enc esf Henc).
+          destruct (map e_def esf) eqn:E; [|reflexivity].
+          apply (f_equal (@length N)) in E. rewrite map_length in E. cbn in E. lia.
+        * destruct Hdef as (-> & _ & _). reflexivity. }
+  (* unravel *)
+  unfold roundtrip. rewrite Hser. cbn [bind].
+  assert (Hitems : items_of cs = Ok (spec_items O cs)).
+  { unfold items_of, build_builder. rewrite Eb. cbn [bind]. rewrite Hbl'. reflexivity. }
+  rewrite Hitems. cbn [bind].
+  destruct (a_layers_ms rs es0 max_rep max_def []) as (esf & crf & cdf & Eal). fold st0 in Eal. cbn [app] in Eal.
+  assert (Eesf : esf = es_f) by (subst es_f; rewrite Eal; reflexivity).
+  unfold a_serialized. rewrite Eal. fold max_rep max_def. fold hr hd. unfold serialized_new, unr_of_serialized.
+  set (M := rev (map lm rs)).
+  set (u0 := unr_new (if hr then Some (map e_rep esf) else None) (if hd then Some (map e_def esf) else None) M (spec_items O cs)).
+  assert (Hkinds : kinds_of cs = rev (map lkind rs)).
+  { unfold kinds_of, rs. rewrite map_map. f_equal. apply map_ext. intros c. symmetry. apply lkind_raw_of_call. }
+  rewrite Hkinds, unravel_all_st.
+  assert (Hcinv_f : hd = false -> Forall plain esf).
+  { intros Hhd0. destruct (record_layers_ok hr hd total rs (ctx_new total max_rep max_def) es0 max_rep max_def [] O
+                  (ctx_new_cinv total rows max_rep max_def Hrows_total) G1) as (c' & _ & Hc').
+    fold st0 in Hc'. rewrite Eal in Hc'. destruct Hc' as [_ Hdef _ _ _ _ _ _]. rewrite Hhd0 in Hdef. apply Hdef. }
+  assert (Hu0 : relu hr hd M (spec_items O cs) 0 0 O u0 (st_es (a_layers rs (es0, max_rep, max_def, [])))).
+  { fold st0. rewrite Eal. cbn [st_es]. subst u0. unfold unr_new.
+    constructor; cbn [u_rep u_def u_l2r u_meaning u_cdc u_crc u_layer u_items]; try reflexivity.
+    - destruct hr; cbn [rel_rep]; [|exact I]. apply map_ext. intros e. lia.
+    - destruct hd eqn:Ehd; cbn [rel_def]; [apply reld0_self|apply Hcinv_f; reflexivity].
+    - destruct hr; reflexivity.
+    - destruct hd; reflexivity. }
+  destruct (unravel_layers hr hd M (spec_items O cs) rs es0 max_rep max_def []) with (u0 := u0) as (u1 & Eu & _).
+  - reflexivity.
+  - unfold max_def. apply sumN_max_def.
+  - unfold max_rep. apply sumN_max_rep.
+  - apply Forall_forall. intros e He. apply repeat_spec in He. subst e. split; left; reflexivity.
+  - exact G2.
+  - exact Hu0.
+  - rewrite Eu. cbn [bind]. fold st0. rewrite G3. reflexivity.
 Qed.
